@@ -2070,6 +2070,1875 @@ theorem reachable_good {c : Cfg} {fix : Patch} {files : Files} {st : State} (hc 
   | init h0 => exact init_good hc hf h0
   | step idx e _ ih => exact step_good _ idx e ih
 
+/-! ### Completed and NoOp units are for ever; `AllStoresCompleted` is monotone -/
+
+theorem update_stableCN (st st' : State) (A : List Cmd) (m : Msg) (e : Bool) (oc : Option Cmd) (hf : st.fix.shadow = true)
+    (hw : st.stages.WF) (hoff : st.stages.offset ≤ st.stages.globalSeg.firstIndex)
+    (hpre : MsgPre st.stages st.pool A m) (h : update st m e = .ok (st', oc)) :
+    StableCN st.stages st'.stages ∧ st'.stages.stages.map (·.kind) = st.stages.stages.map (·.kind) ∧
+    st'.stages.storeSeg = st.stages.storeSeg := by
+  cases m with
+  | scheduleNextJob =>
+    unfold update at h
+    simp only at h
+    split at h
+    · split at h <;> (injection h with h; injection h with h3 _; subst h3; exact ⟨StableCN.refl _, rfl, rfl⟩)
+    · split at h
+      · cases h
+      · rename_i s1 hnj
+        injection h with h; injection h with h3 _; subst h3
+        have hp : PStep st.stages s1 := nextJob_spec st.fix hf _ s1 none hw hoff hnj
+        exact ⟨StableCN.of_step hp (fun _ _ hF => hF.elim), by show s1.stages.map _ = _; rw [hp.rest.stages], hp.rest.storeSeg⟩
+      · rename_i s1 u r hnj
+        split at h
+        · cases h
+        · injection h with h; injection h with h3 _; subst h3
+          have hch : Chosen st.fix st.stages s1 u r := nextJob_spec st.fix hf _ s1 (some (u, r)) hw hoff hnj
+          have hp := hch.pstep
+          exact ⟨StableCN.of_step hp (fun _ _ hF => hF.elim), by show s1.stages.map _ = _; rw [hp.rest.stages], hp.rest.storeSeg⟩
+  | jobSucceeded u w =>
+    obtain ⟨hsched, _, _, _⟩ := hpre
+    unfold update at h
+    simp only at h
+    split at h
+    · cases h
+    · rename_i s1 sh h1
+      split at h
+      · cases h
+      · split at h
+        · cases h
+        · rename_i s2 tm h2
+          injection h with h; injection h with h3 _; subst h3
+          have t1 := markJobSuccess_tstep h1
+          have hw1 := t1.wf hw
+          obtain ⟨t2, _, _, _⟩ := tryMergeList_spec _ s1 s2 tm hw1 h2
+          have hcn1 : StableCN st.stages s1 := StableCN.of_step t1.step (by
+            intro seg stg hT
+            rcases hT.2 with e1 | e1
+            · rw [hT.1, e1, hsched]; simp
+            · rw [e1]; simp)
+          have hcn2 : StableCN s1 s2 := StableCN.of_step t2.step (by intro seg stg hT; rw [hT]; simp)
+          exact ⟨hcn1.trans hcn2, by show s2.stages.map _ = _; rw [(t1.rest.trans t2.rest).stages], (t1.rest.trans t2.rest).storeSeg⟩
+  | mergeFinished u0 =>
+    obtain ⟨hmerging, _⟩ := hpre
+    unfold update at h
+    simp only at h
+    split at h
+    · cases h
+    · rename_i s1 h1
+      split at h
+      · cases h
+      · rename_i s2 t h2
+        injection h with h; injection h with h3 _; subst h3
+        obtain ⟨s0, hs0, hs1⟩ := mergeCompleted_eq h1
+        have t0 := transition_tstep hs0
+        have hw0 := t0.wf hw
+        have hw1 : s1.WF := by rw [hs1]; exact (moveForward_keep s0 u0.stage).wf hw0
+        have hcn0 : StableCN st.stages s0 := StableCN.of_step t0.step (by
+          intro seg stg hT; rw [hT.1, hT.2, hmerging]; simp)
+        have hcn01 : StableCN st.stages s1 := by
+          intro seg stg hst
+          rw [hs1, moveForward_getState]; exact hcn0 seg stg hst
+        have hlist : tryMergeList [u0.stage] s1 = .ok (s2, [tryMergeCmd t]) := by simp [tryMergeList, h2]
+        obtain ⟨t2, _, _, _⟩ := tryMergeList_spec _ s1 s2 _ hw1 hlist
+        have hcn2 : StableCN s1 s2 := StableCN.of_step t2.step (by intro seg stg hT; rw [hT]; simp)
+        refine ⟨hcn01.trans hcn2, ?_, ?_⟩
+        · show s2.stages.map _ = _
+          rw [t2.rest.stages, hs1]
+          unfold Stages.moveSegmentCompletedForward Stages.setStage
+          simp only
+          rw [← t0.rest.stages]
+          -- `List.set` with an element of the same kind
+          apply List.ext_getElem?
+          intro j
+          simp only [List.getElem?_map, List.getElem?_set]
+          by_cases hj : u0.stage = j
+          · subst hj
+            by_cases hlt : u0.stage < s0.stages.length
+            · simp only [hlt, if_true, Option.map_some]
+              unfold Stages.stageAt
+              rw [List.getD_eq_getElem?_getD, List.getElem?_eq_getElem hlt]
+              simp
+            · simp [hlt, List.getElem?_eq_none (Nat.le_of_not_lt hlt)]
+          · simp [hj]
+        · rw [t2.rest.storeSeg, hs1]
+          unfold Stages.moveSegmentCompletedForward Stages.setStage
+          exact t0.rest.storeSeg
+  | jobFailed => simp only [update] at h; injection h with h; injection h with h3 _; subst h3; exact ⟨StableCN.refl _, rfl, rfl⟩
+  | mergeFailed u => simp only [update] at h; injection h with h; injection h with h3 _; subst h3; exact ⟨StableCN.refl _, rfl, rfl⟩
+  | mergeNotReady u => simp only [update] at h; injection h with h; injection h with h3 _; subst h3; exact ⟨StableCN.refl _, rfl, rfl⟩
+  | allStoresCompleted => simp only [update] at h; injection h with h; injection h with h3 _; subst h3; exact ⟨StableCN.refl _, rfl, rfl⟩
+  | fileNotPresent => simp only [update] at h; injection h with h; injection h with h3 _; subst h3; exact ⟨StableCN.refl _, rfl, rfl⟩
+  | fileDownloaded => simp only [update] at h; injection h with h; injection h with h3 _; subst h3; exact ⟨StableCN.refl _, rfl, rfl⟩
+  | walkerCompleted => simp only [update] at h; injection h with h; injection h with h3 _; subst h3; exact ⟨StableCN.refl _, rfl, rfl⟩
+  | downloadSegment =>
+    unfold update at h
+    simp only at h
+    split at h
+    · injection h with h; injection h with h3 _; subst h3; exact ⟨StableCN.refl _, rfl, rfl⟩
+    · split at h
+      · injection h with h; injection h with h3 _; subst h3; exact ⟨StableCN.refl _, rfl, rfl⟩
+      · split at h <;> (injection h with h; injection h with h3 _; subst h3; exact ⟨StableCN.refl _, rfl, rfl⟩)
+
+theorem allDoneFrom_mono {s s' : Stages} (hcn : StableCN s s') (stage : Nat) :
+    ∀ (fuel seg : Nat), s.allDoneFrom stage fuel seg = true → s'.allDoneFrom stage fuel seg = true := by
+  intro fuel
+  induction fuel with
+  | zero => intro seg _; rfl
+  | succ n ih =>
+    intro seg h
+    simp only [Stages.allDoneFrom, Bool.and_eq_true, Bool.or_eq_true, beq_iff_eq] at h ⊢
+    refine ⟨?_, ih _ h.2⟩
+    rw [hcn seg stage h.1]; exact h.1
+
+theorem allStoresCompletedStages_mono {s s' : Stages} (hcn : StableCN s s') (ss : Segmenter) :
+    ∀ (l l' : List Stage) (i : Nat), l'.map (·.kind) = l.map (·.kind) →
+      s.allStoresCompletedStages ss l i = true → s'.allStoresCompletedStages ss l' i = true := by
+  intro l
+  induction l with
+  | nil =>
+    intro l' i hk _
+    cases l' with
+    | nil => rfl
+    | cons a as => simp at hk
+  | cons x xs ih =>
+    intro l' i hk h
+    cases l' with
+    | nil => simp at hk
+    | cons a as =>
+      simp only [List.map_cons, List.cons.injEq] at hk
+      simp only [Stages.allStoresCompletedStages, Bool.and_eq_true] at h ⊢
+      refine ⟨?_, ih as (i + 1) hk.2 h.2⟩
+      rw [hk.1]
+      split
+      · rename_i hkx
+        have := h.1
+        rw [if_pos hkx] at this
+        exact allDoneFrom_mono hcn i _ _ this
+      · rfl
+
+theorem allStoresCompleted_mono {s s' : Stages} (hcn : StableCN s s')
+    (hk : s'.stages.map (·.kind) = s.stages.map (·.kind)) (hss : s'.storeSeg = s.storeSeg)
+    (h : s.allStoresCompleted = true) : s'.allStoresCompleted = true := by
+  unfold Stages.allStoresCompleted at h ⊢
+  rw [hss]
+  split
+  · rfl
+  · rename_i ss hs
+    rw [hs] at h
+    simp only at h
+    split
+    · rfl
+    · rename_i hne
+      rw [if_neg hne] at h
+      exact allStoresCompletedStages_mono hcn ss _ _ 0 hk h
+
+/-! ### anatomy of a step -/
+
+/-- what a step does, in terms of the command executed -/
+inductive StepKind (st : State) (idx : Nat) (e : Bool) : State → Prop
+  | idle : StepKind st idx e st
+  | batch (l : List Cmd) : st.ended = none → st.bag[idx]? = some (.batch l) →
+      StepKind st idx e { st with bag := st.bag.eraseIdx idx ++ l }
+  | quit (c : Cmd) (b : Bool) (st1 : State) : st.ended = none → st.bag[idx]? = some c →
+      exec { st with bag := st.bag.eraseIdx idx } c = (st1, .quit b) →
+      StepKind st idx e { st1 with ended := some (if b then .quitErr else .quitNil) }
+  | panic (c : Cmd) (m : Msg) (st1 : State) (err : Err) : st.ended = none → st.bag[idx]? = some c →
+      exec { st with bag := st.bag.eraseIdx idx } c = (st1, .msg m) → update st1 m e = .error err →
+      StepKind st idx e { st1 with ended := some (.panic err) }
+  | msg (c : Cmd) (m : Msg) (st1 st2 : State) (oc : Option Cmd) : st.ended = none → st.bag[idx]? = some c →
+      exec { st with bag := st.bag.eraseIdx idx } c = (st1, .msg m) → update st1 m e = .ok (st2, oc) →
+      StepKind st idx e { st2 with bag := st2.bag ++ oc.toList }
+
+theorem step_kind (st : State) (idx : Nat) (e : Bool) : StepKind st idx e (step st idx e) := by
+  unfold step
+  split
+  · exact .idle
+  · rename_i hend
+    have hend' : st.ended = none := by
+      cases h : st.ended with
+      | none => rfl
+      | some x => rw [h] at hend; simp at hend
+    split
+    · exact .idle
+    · rename_i c hc
+      simp only
+      cases hex : exec { st with bag := st.bag.eraseIdx idx } c with
+      | mk st1 out =>
+        cases out with
+        | batch l =>
+          simp only
+          have hbi := exec_batch_inv { st with bag := st.bag.eraseIdx idx } c l (by rw [hex])
+          have h1 : st1 = { st with bag := st.bag.eraseIdx idx } := by have := hbi.2; rw [hex] at this; exact this
+          subst h1
+          have hcl := hbi.1
+          subst hcl
+          exact .batch l hend' hc
+        | quit b => exact .quit c b st1 hend' hc hex
+        | msg m =>
+          simp only
+          cases hupd : update st1 m e with
+          | error err => exact .panic c m st1 err hend' hc hex hupd
+          | ok r =>
+            obtain ⟨st2, oc⟩ := r
+            have := StepKind.msg (st := st) (idx := idx) (e := e) c m st1 st2 oc hend' hc hex hupd
+            cases oc with
+            | none => simpa using this
+            | some c' => simpa using this
+
+/-- what executing a plain command answers -/
+theorem exec_plain (st : State) (c : Cmd) (hc : c.plain) (hnb : ∀ l, c ≠ .batch l) :
+    (exec st c).1.stages = st.stages ∧ (exec st c).1.files = st.files ∧ (exec st c).1.walker = st.walker ∧
+    (exec st c).1.outDone = st.outDone ∧ (exec st c).1.storesDone = st.storesDone := by
+  cases c with
+  | merge u => have := hc.2.2; simp [Cmd.mergeUnit] at this
+  | job u sb w => have := hc.1; simp [Cmd.jobUnit] at this
+  | batch l => exact absurd rfl (hnb l)
+  | downloadCurrent seg =>
+    unfold exec
+    simp only
+    split
+    · exact ⟨rfl, rfl, rfl, rfl, rfl⟩
+    · split
+      · exact ⟨rfl, rfl, rfl, rfl, rfl⟩
+      · split <;> exact ⟨rfl, rfl, rfl, rfl, rfl⟩
+  | scheduleNextJob => exact ⟨rfl, rfl, rfl, rfl, rfl⟩
+  | allStoresCompleted => exact ⟨rfl, rfl, rfl, rfl, rfl⟩
+  | mergeNotReady u => exact ⟨rfl, rfl, rfl, rfl, rfl⟩
+  | downloadSegment => exact ⟨rfl, rfl, rfl, rfl, rfl⟩
+  | walkerCompleted => exact ⟨rfl, rfl, rfl, rfl, rfl⟩
+  | shutdown => exact ⟨rfl, rfl, rfl, rfl, rfl⟩
+  | quit e => exact ⟨rfl, rfl, rfl, rfl, rfl⟩
+  | tick => exact ⟨rfl, rfl, rfl, rfl, rfl⟩
+
+/-! ### the walker, the two final flags, the shutdown -/
+
+def Cmd.isDlCur : Cmd → Bool
+  | .downloadCurrent _ => true
+  | _ => false
+
+/-- files are only added to the output store -/
+theorem runJob_outputs (c : Cfg) (t seg : Nat) (f : Files) (a b : Nat) (h : f.hasOutput a b = true) :
+    (runJob c t seg f).hasOutput a b = true := by
+  have hstores : ∀ (k seg t : Nat) (l : List StageCfg) (j : Nat) (f : Files), (jobStages k seg t l j f).outputs = f.outputs := by
+    intro k seg t l
+    induction l with
+    | nil => intro j f; rfl
+    | cons sc rest ih =>
+      intro j f
+      simp only [jobStages]
+      split
+      · rfl
+      · split
+        · rw [ih]
+          -- jobMods only touches the stores
+          have : ∀ (l : List Nat) (i : Nat) (f : Files), (jobMods k seg t j l i f).outputs = f.outputs := by
+            intro l
+            induction l with
+            | nil => intro i f; rfl
+            | cons x xs ihx =>
+              intro i f
+              simp only [jobMods]
+              split
+              · exact ihx _ _
+              · split
+                · exact ihx _ _
+                · split
+                  · rw [ihx]; unfold Files.addPartial; split <;> rfl
+                  · rw [ihx]; unfold Files.addFull; split <;> rfl
+          exact this _ _ _
+        · exact ih _ _
+  unfold runJob
+  simp only
+  split
+  · exact h
+  · split
+    · split
+      · split
+        · exact h
+        · unfold Files.addOutput
+          split
+          · unfold Files.hasOutput at h ⊢; rw [hstores]; exact h
+          · unfold Files.hasOutput at h ⊢
+            simp only [List.any_append, Bool.or_eq_true]
+            left; rw [hstores]; exact h
+      · unfold Files.hasOutput at h ⊢; rw [hstores]; exact h
+    · unfold Files.hasOutput at h ⊢; rw [hstores]; exact h
+
+theorem squashMods_outputs (st : Stage) (seg : Nat) : ∀ (l : List ModState) (i : Nat) (f : Files) (ms : List ModState) (f' : Files),
+    squashMods st seg l i f = some (ms, f') → f'.outputs = f.outputs := by
+  intro l
+  induction l with
+  | nil => intro i f ms f' h; simp only [squashMods] at h; injection h with h; injection h with _ h2; rw [← h2]
+  | cons m rest ih =>
+    intro i f ms f' h
+    simp only [squashMods] at h
+    split at h
+    · cases h
+    · rename_i m' f1 h1
+      split at h
+      · cases h
+      · rename_i ms2 f2 h2
+        injection h with h; injection h with _ h3; subst h3
+        rw [ih _ _ _ _ h2]
+        -- one module
+        unfold squashMod at h1
+        simp only at h1
+        split at h1
+        · injection h1 with h1; injection h1 with _ h4; rw [← h4]
+        · split at h1
+          · split at h1
+            · cases h1
+            · split at h1
+              · injection h1 with h1; injection h1 with _ h4; rw [← h4]
+              · split at h1
+                · injection h1 with h1; injection h1 with _ h4; rw [← h4]
+                  split
+                  · unfold Files.addFull; split <;> (unfold Files.delPartial; rfl)
+                  · unfold Files.delPartial; rfl
+                · cases h1
+          · cases h1
+
+theorem exec_outputs (st : State) (c : Cmd) (a b : Nat) (h : st.files.hasOutput a b = true) :
+    (exec st c).1.files.hasOutput a b = true := by
+  cases c with
+  | job u sb w => simp only [exec]; exact runJob_outputs _ _ _ _ a b h
+  | merge u =>
+    unfold exec
+    simp only
+    split
+    · exact h
+    · rename_i s' f' hr
+      unfold runMerge at hr
+      simp only at hr
+      split at hr
+      · cases hr
+      · rename_i ms f2 hsq
+        injection hr with hr; injection hr with _ h2; subst h2
+        unfold Files.hasOutput at h ⊢
+        rw [squashMods_outputs _ _ _ _ _ _ _ hsq]; exact h
+  | downloadCurrent seg =>
+    unfold exec
+    simp only
+    split
+    · exact h
+    · split
+      · exact h
+      · split <;> exact h
+  | batch l => exact h
+  | scheduleNextJob => exact h
+  | allStoresCompleted => exact h
+  | mergeNotReady u => exact h
+  | downloadSegment => exact h
+  | walkerCompleted => exact h
+  | shutdown => exact h
+  | quit e => exact h
+  | tick => exact h
+
+/-- how `update` changes the walker, the flags, the files -/
+structure Evo (st st' : State) (m : Msg) : Prop where
+  files      : st'.files = st.files
+  ended      : st'.ended = st.ended
+  outDone    : st'.outDone = (st.outDone || m == .walkerCompleted)
+  storesDone : st'.storesDone = (st.storesDone || m == .allStoresCompleted)
+  outIsIndex : st'.stages.outIsIndex = st.stages.outIsIndex
+  walker     : st'.walker = match m with
+    | .fileNotPresent => st.walker.map fun w => { w with working := false }
+    | .fileDownloaded => st.walker.map fun w => { w with cur := w.cur + 1, working := false }
+    | .downloadSegment => st.walker.map fun w => if w.working then w else { w with working := true }
+    | _ => st.walker
+
+theorem cmdTryMerge_outIsIndex {s s' : Stages} {i : Nat} {t : TryMerge} (h : s.cmdTryMerge i = .ok (s', t)) :
+    s'.outIsIndex = s.outIsIndex := by
+  cases t with
+  | merge u' =>
+    unfold Stages.cmdTryMerge at h
+    split at h
+    · injection h with h; injection h with _ hh; cases hh
+    · simp only at h
+      split at h
+      · injection h with h; injection h with _ hh; cases hh
+      · split at h
+        · injection h with h; injection h with _ hh; cases hh
+        · split at h
+          · injection h with h; injection h with _ hh; cases hh
+          · split at h
+            · injection h with h; injection h with _ hh; cases hh
+            · split at h
+              · cases h
+              · rename_i ax hax
+                injection h with h; injection h with hh _; subst hh
+                unfold Stages.markSegmentMerging at hax
+                split at hax
+                · cases hax
+                · exact (transition_rest hax).outIsIndex
+  | allStoresCompleted => rw [cmdTryMerge_other h (by intro u; simp)]
+  | nothing => rw [cmdTryMerge_other h (by intro u; simp)]
+  | notReady u' => rw [cmdTryMerge_other h (by intro u; simp)]
+
+theorem tryMergeList_outIsIndex : ∀ (l : List Nat) (a a' : Stages) (cs : List (Option Cmd)),
+    tryMergeList l a = .ok (a', cs) → a'.outIsIndex = a.outIsIndex := by
+  intro l
+  induction l with
+  | nil => intro a a' cs h; simp only [tryMergeList] at h; injection h with h; injection h with h1 _; subst h1; rfl
+  | cons i rest ih =>
+    intro a a' cs h
+    simp only [tryMergeList] at h
+    split at h
+    · cases h
+    · rename_i a1 t ha1
+      split at h
+      · cases h
+      · rename_i a2 l2 ha2
+        injection h with h; injection h with h3 _; subst h3
+        rw [ih _ _ _ ha2, cmdTryMerge_outIsIndex ha1]
+
+theorem update_evo (st st' : State) (m : Msg) (e : Bool) (oc : Option Cmd) (hf : st.fix.shadow = true)
+    (hw : st.stages.WF) (hoff : st.stages.offset ≤ st.stages.globalSeg.firstIndex)
+    (h : update st m e = .ok (st', oc)) : Evo st st' m := by
+  cases m with
+  | jobSucceeded u w =>
+    unfold update at h
+    simp only at h
+    split at h
+    · cases h
+    · rename_i s1 sh h1
+      split at h
+      · cases h
+      · split at h
+        · cases h
+        · rename_i s2 tm h2
+          injection h with h; injection h with h3 _; subst h3
+          refine ⟨rfl, rfl, by simp, by simp, ?_, rfl⟩
+          show s2.outIsIndex = st.stages.outIsIndex
+          rw [tryMergeList_outIsIndex _ _ _ _ h2]; exact (markJobSuccess_tstep h1).rest.outIsIndex
+  | scheduleNextJob =>
+    unfold update at h
+    simp only at h
+    split at h
+    · split at h <;> (injection h with h; injection h with h3 _; subst h3; exact ⟨rfl, rfl, by simp, by simp, rfl, rfl⟩)
+    · split at h
+      · cases h
+      · rename_i s1 hnj
+        injection h with h; injection h with h3 _; subst h3
+        have hp : PStep st.stages s1 := nextJob_spec st.fix hf _ s1 none hw hoff hnj
+        exact ⟨rfl, rfl, by simp, by simp, hp.rest.outIsIndex, rfl⟩
+      · rename_i s1 u r hnj
+        split at h
+        · cases h
+        · injection h with h; injection h with h3 _; subst h3
+          have hch : Chosen st.fix st.stages s1 u r := nextJob_spec st.fix hf _ s1 (some (u, r)) hw hoff hnj
+          exact ⟨rfl, rfl, by simp, by simp, hch.pstep.rest.outIsIndex, rfl⟩
+  | mergeFinished u =>
+    unfold update at h
+    simp only at h
+    split at h
+    · cases h
+    · rename_i s1 h1
+      split at h
+      · cases h
+      · rename_i s2 t h2
+        injection h with h; injection h with h3 _; subst h3
+        refine ⟨rfl, rfl, by simp, by simp, ?_, rfl⟩
+        show s2.outIsIndex = st.stages.outIsIndex
+        obtain ⟨s0, hs0, hs1⟩ := mergeCompleted_eq h1
+        rw [cmdTryMerge_outIsIndex h2, hs1]
+        unfold Stages.moveSegmentCompletedForward Stages.setStage
+        exact (transition_rest hs0).outIsIndex
+  | jobFailed => simp only [update] at h; injection h with h; injection h with h3 _; subst h3; exact ⟨rfl, rfl, by simp, by simp, rfl, rfl⟩
+  | mergeFailed u => simp only [update] at h; injection h with h; injection h with h3 _; subst h3; exact ⟨rfl, rfl, by simp, by simp, rfl, rfl⟩
+  | mergeNotReady u => simp only [update] at h; injection h with h; injection h with h3 _; subst h3; exact ⟨rfl, rfl, by simp, by simp, rfl, rfl⟩
+  | allStoresCompleted => simp only [update] at h; injection h with h; injection h with h3 _; subst h3; exact ⟨rfl, rfl, by simp, by simp, rfl, rfl⟩
+  | fileNotPresent => simp only [update] at h; injection h with h; injection h with h3 _; subst h3; exact ⟨rfl, rfl, by simp, by simp, rfl, rfl⟩
+  | fileDownloaded => simp only [update] at h; injection h with h; injection h with h3 _; subst h3; exact ⟨rfl, rfl, by simp, by simp, rfl, rfl⟩
+  | walkerCompleted => simp only [update] at h; injection h with h; injection h with h3 _; subst h3; exact ⟨rfl, rfl, by simp, by simp, rfl, rfl⟩
+  | downloadSegment =>
+    unfold update at h
+    simp only at h
+    split at h
+    · rename_i hwk
+      injection h with h; injection h with h3 _; subst h3
+      exact ⟨rfl, rfl, by simp, by simp, rfl, by simp [hwk]⟩
+    · rename_i w hwk
+      split at h
+      · rename_i hworking
+        injection h with h; injection h with h3 _; subst h3
+        exact ⟨rfl, rfl, by simp, by simp, rfl, by simp [hwk, hworking]⟩
+      · rename_i hworking
+        split at h <;>
+          (injection h with h; injection h with h3 _; subst h3
+           exact ⟨rfl, rfl, by simp, by simp, rfl, by simp [hwk, hworking]⟩)
+
+/-- every atom of the answer to `MsgJobSucceeded` is a try-merge command, N or D -/
+theorem jobSucceeded_answer_atoms (sh : List WorkUnit) (tm : List (Option Cmd)) (dl : Option Cmd)
+    (hdl : ∀ c ∈ dl.toList, c = Cmd.downloadSegment) (hat : ∀ c ∈ tm.filterMap id, c.atomic) (x : Cmd)
+    (h : x ∈ optAtoms (mkBatch [if sh.isEmpty then tm.headD none else mkBatch tm, some Cmd.scheduleNextJob, dl])) :
+    x ∈ tm.filterMap id ∨ x = Cmd.scheduleNextJob ∨ x = Cmd.downloadSegment := by
+  have htm_atoms : atomsList (tm.filterMap id) = tm.filterMap id := atomsList_of_atomic _ hat
+  rcases mem_optAtoms_batch3 _ _ _ _ h with hs | hs | hs
+  · left
+    split at hs
+    · cases htm : tm with
+      | nil => rw [htm] at hs; simp [optAtoms, atomsList] at hs
+      | cons y ys =>
+        rw [htm] at hs
+        simp only [List.headD_cons] at hs
+        cases y with
+        | none => simp [optAtoms, atomsList] at hs
+        | some c0 =>
+          rw [optAtoms_some] at hs
+          have hc0 : c0 ∈ tm.filterMap id := by rw [htm]; simp
+          have := hat c0 hc0
+          unfold Cmd.atomic at this
+          rw [this] at hs
+          simp at hs; subst hs
+          simp
+    · rw [optAtoms_mkBatch, htm_atoms] at hs; exact hs
+  · right; left; rw [optAtoms_some] at hs; simpa [Cmd.atoms] using hs
+  · right; right
+    cases dl with
+    | none => rw [optAtoms_none] at hs; cases hs
+    | some d =>
+      have := hdl d (by simp); subst this
+      rw [optAtoms_some] at hs; simpa [Cmd.atoms] using hs
+
+/-- the try-merge commands: what they are, and `CmdAllStoresCompleted` only when all stores are complete -/
+theorem tryMergeList_ctrl : ∀ (l : List Nat) (s s' : Stages) (cmds : List (Option Cmd)), s.WF →
+    tryMergeList l s = .ok (s', cmds) →
+    ∀ c ∈ cmds.filterMap id, (c = Cmd.allStoresCompleted ∨ (∃ u, c = Cmd.mergeNotReady u) ∨ (∃ u, c = Cmd.merge u)) ∧
+      (c = Cmd.allStoresCompleted → s'.allStoresCompleted = true) := by
+  intro l
+  induction l with
+  | nil => intro s s' cmds _ h c hc; simp only [tryMergeList] at h; injection h with h; injection h with _ h2; subst h2; simp at hc
+  | cons i rest ih =>
+    intro s s' cmds hw h c hc
+    simp only [tryMergeList] at h
+    split at h
+    · cases h
+    · rename_i s1 t h1
+      split at h
+      · cases h
+      · rename_i s2 l2 h2
+        injection h with h; injection h with h3 h4; subst h3; subst h4
+        have hw1 : s1.WF := by
+          cases t with
+          | merge u => exact (cmdTryMerge_merge h1 hw).2.2.2.2.2.2.wf hw
+          | allStoresCompleted => rw [cmdTryMerge_other h1 (by intro u; simp)]; exact hw
+          | nothing => rw [cmdTryMerge_other h1 (by intro u; simp)]; exact hw
+          | notReady u' => rw [cmdTryMerge_other h1 (by intro u; simp)]; exact hw
+        simp only [List.filterMap_cons, id] at hc
+        have hrest := ih s1 s2 l2 hw1 h2
+        obtain ⟨t2, _, _, _⟩ := tryMergeList_spec rest s1 s2 l2 hw1 h2
+        have hcn2 : StableCN s1 s2 := StableCN.of_step t2.step (by intro seg stg hT; rw [hT]; simp)
+        cases t with
+        | allStoresCompleted =>
+          simp only [tryMergeCmd] at hc
+          rcases List.mem_cons.1 hc with hc | hc
+          · subst hc
+            refine ⟨Or.inl rfl, fun _ => ?_⟩
+            have hs1 : s1 = s := cmdTryMerge_other h1 (by intro u; simp)
+            have hall : s.allStoresCompleted = true := by
+              unfold Stages.cmdTryMerge at h1
+              split at h1
+              · assumption
+              · simp only at h1
+                split at h1
+                · injection h1 with h1; injection h1 with _ hh; cases hh
+                · split at h1
+                  · injection h1 with h1; injection h1 with _ hh; cases hh
+                  · split at h1
+                    · injection h1 with h1; injection h1 with _ hh; cases hh
+                    · split at h1
+                      · injection h1 with h1; injection h1 with _ hh; cases hh
+                      · split at h1
+                        · cases h1
+                        · injection h1 with h1; injection h1 with _ hh; cases hh
+            rw [← hs1] at hall
+            exact allStoresCompleted_mono hcn2 (by rw [t2.rest.stages]) t2.rest.storeSeg hall
+          · exact hrest c hc
+        | nothing => simp only [tryMergeCmd] at hc; exact hrest c hc
+        | notReady u' =>
+          simp only [tryMergeCmd] at hc
+          rcases List.mem_cons.1 hc with hc | hc
+          · subst hc; exact ⟨Or.inr (Or.inl ⟨u', rfl⟩), fun hcc => by cases hcc⟩
+          · exact hrest c hc
+        | merge u' =>
+          simp only [tryMergeCmd] at hc
+          rcases List.mem_cons.1 hc with hc | hc
+          · subst hc; exact ⟨Or.inr (Or.inr ⟨u', rfl⟩), fun hcc => by cases hcc⟩
+          · exact hrest c hc
+
+/-- the control commands in the answer of `update` -/
+structure CtrlAtoms (st st' : State) (m : Msg) (oc : Option Cmd) : Prop where
+  dlOut : (m = .fileNotPresent ∨ m = .fileDownloaded) → Cmd.downloadSegment ∈ optAtoms oc
+  curIn : ∀ seg, Cmd.downloadCurrent seg ∈ optAtoms oc →
+    m = .downloadSegment ∧ ∃ w, st.walker = some w ∧ w.working = false ∧ w.isDone = false ∧ seg = w.cur
+  curOut : m = .downloadSegment → ∀ w, st.walker = some w → w.working = false →
+    (w.isDone = true → Cmd.walkerCompleted ∈ optAtoms oc) ∧ (w.isDone = false → Cmd.downloadCurrent w.cur ∈ optAtoms oc)
+  wcIn : Cmd.walkerCompleted ∈ optAtoms oc →
+    m = .downloadSegment ∧ ∃ w, st.walker = some w ∧ w.working = false ∧ w.isDone = true
+  curCount : ((optAtoms oc).filter Cmd.isDlCur).length ≤ 1
+  shutIn : Cmd.shutdown ∈ optAtoms oc → st'.outDone = true ∧ st'.storesDone = true
+  shutOut : (m = .allStoresCompleted ∨ m = .walkerCompleted) → st'.outDone = true → st'.storesDone = true →
+    (st'.walker.isSome = true ∨ st'.stages.outIsIndex = false) → Cmd.shutdown ∈ optAtoms oc
+  quitF : Cmd.quit false ∉ optAtoms oc
+  allIn : Cmd.allStoresCompleted ∈ optAtoms oc → st'.stages.allStoresCompleted = true
+
+/-- a list of atoms without any control command -/
+def NoCtrl (l : List Cmd) : Prop :=
+  (∀ seg, Cmd.downloadCurrent seg ∉ l) ∧ Cmd.walkerCompleted ∉ l ∧ Cmd.shutdown ∉ l ∧ Cmd.quit false ∉ l ∧
+  Cmd.allStoresCompleted ∉ l
+
+theorem CtrlAtoms.of_noCtrl {st st' : State} {m : Msg} {oc : Option Cmd} (h : NoCtrl (optAtoms oc))
+    (hm1 : m ≠ .fileNotPresent) (hm2 : m ≠ .fileDownloaded) (hm3 : m ≠ .downloadSegment)
+    (hm4 : m ≠ .allStoresCompleted) (hm5 : m ≠ .walkerCompleted) : CtrlAtoms st st' m oc := by
+  refine ⟨?_, ?_, ?_, ?_, ?_, ?_, ?_, h.2.2.2.1, ?_⟩
+  · intro hc; rcases hc with hc | hc; exact absurd hc hm1; exact absurd hc hm2
+  · intro seg hs; exact absurd hs (h.1 seg)
+  · intro hc; exact absurd hc hm3
+  · intro hs; exact absurd hs h.2.1
+  · have : (optAtoms oc).filter Cmd.isDlCur = [] := by
+      apply List.filter_eq_nil_iff.2
+      intro c hc hcur
+      cases c <;> simp [Cmd.isDlCur] at hcur
+      exact h.1 _ hc
+    rw [this]; simp
+  · intro hs; exact absurd hs h.2.2.1
+  · intro hc; rcases hc with hc | hc; exact absurd hc hm4; exact absurd hc hm5
+  · intro hs; exact absurd hs h.2.2.2.2
+
+theorem shutdown_atoms (st : State) (x : Cmd) (h : x ∈ optAtoms (cmdShutdownWhenComplete st)) :
+    x = Cmd.shutdown ∧ st.outDone = true ∧ st.storesDone = true := by
+  unfold cmdShutdownWhenComplete at h
+  split at h
+  · rename_i hb
+    split at h
+    · rw [optAtoms_some] at h; simp [Cmd.atoms] at h; exact ⟨h, hb.1, hb.2⟩
+    · split at h
+      · rw [optAtoms_none] at h; cases h
+      · rw [optAtoms_some] at h; simp [Cmd.atoms] at h; exact ⟨h, hb.1, hb.2⟩
+  · rw [optAtoms_none] at h; cases h
+
+theorem shutdown_present (st : State) (h1 : st.outDone = true) (h2 : st.storesDone = true)
+    (h3 : st.walker.isSome = true ∨ st.stages.outIsIndex = false) :
+    Cmd.shutdown ∈ optAtoms (cmdShutdownWhenComplete st) := by
+  unfold cmdShutdownWhenComplete
+  rw [if_pos ⟨h1, h2⟩]
+  split
+  · rw [optAtoms_some]; simp [Cmd.atoms]
+  · rename_i hnone
+    rcases h3 with h3 | h3
+    · rw [hnone] at h3; simp at h3
+    · have : ¬(st.stages.outIsIndex = true ∧ (!st.stages.lastStageCompleted) = true) := by
+        intro hc; rw [h3] at hc; simp at hc
+      rw [if_neg this, optAtoms_some]; simp [Cmd.atoms]
+
+theorem update_ctrl (st st' : State) (m : Msg) (e : Bool) (oc : Option Cmd) (hw : st.stages.WF)
+    (h : update st m e = .ok (st', oc)) : CtrlAtoms st st' m oc := by
+  cases m with
+  | scheduleNextJob =>
+    apply CtrlAtoms.of_noCtrl _ (by simp) (by simp) (by simp) (by simp) (by simp)
+    unfold update at h
+    simp only at h
+    split at h
+    · split at h
+      · injection h with h; injection h with _ h4; subst h4
+        rw [optAtoms_none]; exact ⟨(by simp), (by simp), (by simp), (by simp), (by simp)⟩
+      · injection h with h; injection h with _ h4; subst h4
+        rw [optAtoms_mkBatch]; simp [atomsList, Cmd.atoms, NoCtrl]
+    · split at h
+      · cases h
+      · injection h with h; injection h with _ h4; subst h4
+        rw [optAtoms_none]; exact ⟨(by simp), (by simp), (by simp), (by simp), (by simp)⟩
+      · split at h
+        · cases h
+        · injection h with h; injection h with _ h4; subst h4
+          rw [optAtoms_mkBatch]; simp [atomsList, Cmd.atoms, NoCtrl]
+  | jobFailed =>
+    apply CtrlAtoms.of_noCtrl _ (by simp) (by simp) (by simp) (by simp) (by simp)
+    simp only [update] at h; injection h with h; injection h with _ h4; subst h4
+    rw [optAtoms_mkBatch]; simp [atomsList, Cmd.atoms, NoCtrl]
+  | mergeFailed u =>
+    apply CtrlAtoms.of_noCtrl _ (by simp) (by simp) (by simp) (by simp) (by simp)
+    simp only [update] at h; injection h with h; injection h with _ h4; subst h4
+    rw [optAtoms_mkBatch]; simp [atomsList, Cmd.atoms, NoCtrl]
+  | mergeNotReady u =>
+    apply CtrlAtoms.of_noCtrl _ (by simp) (by simp) (by simp) (by simp) (by simp)
+    simp only [update] at h; injection h with h; injection h with _ h4; subst h4
+    rw [optAtoms_none]; exact ⟨(by simp), (by simp), (by simp), (by simp), (by simp)⟩
+  | jobSucceeded u w =>
+    unfold update at h
+    simp only at h
+    split at h
+    · cases h
+    · rename_i s1 sh h1
+      split at h
+      · cases h
+      · split at h
+        · cases h
+        · rename_i s2 tm h2
+          injection h with h; injection h with h3 h4; subst h3; subst h4
+          have hw1 := (markJobSuccess_tstep h1).wf hw
+          obtain ⟨_, _, _, hat2⟩ := tryMergeList_spec _ s1 s2 tm hw1 h2
+          have hctrl := tryMergeList_ctrl _ s1 s2 tm hw1 h2
+          have hmem : ∀ x, x ∈ optAtoms (mkBatch [if sh.isEmpty then tm.headD none else mkBatch tm,
+              some Cmd.scheduleNextJob, if st.walker.isSome then some Cmd.downloadSegment else none]) →
+              x ∈ tm.filterMap id ∨ x = Cmd.scheduleNextJob ∨ x = Cmd.downloadSegment :=
+            fun x hx => jobSucceeded_answer_atoms sh tm _ (ite_some_toList _ _) (fun c hc => (hat2 c hc).1) x hx
+          -- no L, K, Q, quit among the atoms
+          have none_of : ∀ x, x ∈ optAtoms (mkBatch [if sh.isEmpty then tm.headD none else mkBatch tm,
+              some Cmd.scheduleNextJob, if st.walker.isSome then some Cmd.downloadSegment else none]) →
+              (∀ seg, x ≠ Cmd.downloadCurrent seg) ∧ x ≠ Cmd.walkerCompleted ∧ x ≠ Cmd.shutdown ∧ x ≠ Cmd.quit false := by
+            intro x hx
+            rcases hmem x hx with hx | hx | hx
+            · rcases (hctrl x hx).1 with e1 | ⟨u', e1⟩ | ⟨u', e1⟩ <;> subst e1 <;> simp
+            · subst hx; simp
+            · subst hx; simp
+          refine ⟨(fun hc => hc.elim (fun h => nomatch h) (fun h => nomatch h)), ?_, (fun hc => nomatch hc), ?_, ?_, ?_,
+            (fun hc => hc.elim (fun h => nomatch h) (fun h => nomatch h)), ?_, ?_⟩
+          · intro seg hs; exact absurd rfl ((none_of _ hs).1 seg)
+          · intro hs; exact absurd rfl (none_of _ hs).2.1
+          · have : (optAtoms (mkBatch [if sh.isEmpty then tm.headD none else mkBatch tm,
+                some Cmd.scheduleNextJob, if st.walker.isSome then some Cmd.downloadSegment else none])).filter Cmd.isDlCur = [] := by
+              apply List.filter_eq_nil_iff.2
+              intro c hc hcur
+              cases c <;> simp [Cmd.isDlCur] at hcur
+              exact (none_of _ hc).1 _ rfl
+            rw [this]; simp
+          · intro hs; exact absurd rfl (none_of _ hs).2.2.1
+          · intro hs; exact absurd rfl (none_of _ hs).2.2.2
+          · intro hs
+            rcases hmem _ hs with hx | hx | hx
+            · exact (hctrl _ hx).2 rfl
+            · cases hx
+            · cases hx
+  | mergeFinished u0 =>
+    unfold update at h
+    simp only at h
+    split at h
+    · cases h
+    · rename_i s1 h1
+      split at h
+      · cases h
+      · rename_i s2 t h2
+        injection h with h; injection h with h3 h4; subst h3; subst h4
+        obtain ⟨_, _, _, _, _, _, _, hw1, _, _⟩ := mergeCompleted_spec h1 hw
+        have hlist : tryMergeList [u0.stage] s1 = .ok (s2, [tryMergeCmd t]) := by simp [tryMergeList, h2]
+        have hctrl := tryMergeList_ctrl _ s1 s2 _ hw1 hlist
+        have hmem : ∀ x, x ∈ optAtoms (mkBatch [some Cmd.scheduleNextJob, tryMergeCmd t]) →
+            x = Cmd.scheduleNextJob ∨ x ∈ [tryMergeCmd t].filterMap id := by
+          intro x hx
+          rcases mem_optAtoms_batch2 _ _ _ hx with hs | hs
+          · left; rw [optAtoms_some] at hs; simpa [Cmd.atoms] using hs
+          · right
+            cases htc : tryMergeCmd t with
+            | none => rw [htc, optAtoms_none] at hs; cases hs
+            | some c0 =>
+              rw [htc, optAtoms_some] at hs
+              have := (tryMergeCmd_atomic t c0 htc).1
+              unfold Cmd.atomic at this
+              rw [this] at hs
+              simp at hs; subst hs; simp
+        have none_of : ∀ x, x ∈ optAtoms (mkBatch [some Cmd.scheduleNextJob, tryMergeCmd t]) →
+            (∀ seg, x ≠ Cmd.downloadCurrent seg) ∧ x ≠ Cmd.walkerCompleted ∧ x ≠ Cmd.shutdown ∧ x ≠ Cmd.quit false := by
+          intro x hx
+          rcases hmem x hx with hx | hx
+          · subst hx; simp
+          · rcases (hctrl x hx).1 with e1 | ⟨u', e1⟩ | ⟨u', e1⟩ <;> subst e1 <;> simp
+        refine ⟨(fun hc => hc.elim (fun h => nomatch h) (fun h => nomatch h)), ?_, (fun hc => nomatch hc), ?_, ?_, ?_,
+          (fun hc => hc.elim (fun h => nomatch h) (fun h => nomatch h)), ?_, ?_⟩
+        · intro seg hs; exact absurd rfl ((none_of _ hs).1 seg)
+        · intro hs; exact absurd rfl (none_of _ hs).2.1
+        · have : (optAtoms (mkBatch [some Cmd.scheduleNextJob, tryMergeCmd t])).filter Cmd.isDlCur = [] := by
+            apply List.filter_eq_nil_iff.2
+            intro c hc hcur
+            cases c <;> simp [Cmd.isDlCur] at hcur
+            exact (none_of _ hc).1 _ rfl
+          rw [this]; simp
+        · intro hs; exact absurd rfl (none_of _ hs).2.2.1
+        · intro hs; exact absurd rfl (none_of _ hs).2.2.2
+        · intro hs
+          rcases hmem _ hs with hx | hx
+          · cases hx
+          · exact (hctrl _ hx).2 rfl
+  | allStoresCompleted =>
+    simp only [update] at h; injection h with h; injection h with h3 h4; subst h3; subst h4
+    have hmem : ∀ x, x ∈ optAtoms (mkBatch [some Cmd.scheduleNextJob, cmdShutdownWhenComplete { st with storesDone := true }]) →
+        x = Cmd.scheduleNextJob ∨ (x = Cmd.shutdown ∧ st.outDone = true) := by
+      intro x hx
+      rcases mem_optAtoms_batch2 _ _ _ hx with hs | hs
+      · left; rw [optAtoms_some] at hs; simpa [Cmd.atoms] using hs
+      · right; have := shutdown_atoms _ x hs; exact ⟨this.1, this.2.1⟩
+    refine ⟨(fun hc => hc.elim (fun h => nomatch h) (fun h => nomatch h)), ?_, (fun hc => nomatch hc), ?_, ?_, ?_, ?_, ?_, ?_⟩
+    · intro seg hs; rcases hmem _ hs with hx | hx; cases hx; cases hx.1
+    · intro hs; rcases hmem _ hs with hx | hx; cases hx; cases hx.1
+    · have : (optAtoms (mkBatch [some Cmd.scheduleNextJob, cmdShutdownWhenComplete { st with storesDone := true }])).filter Cmd.isDlCur = [] := by
+        apply List.filter_eq_nil_iff.2
+        intro c hc hcur
+        rcases hmem c hc with hx | hx
+        · subst hx; simp [Cmd.isDlCur] at hcur
+        · rw [hx.1] at hcur; simp [Cmd.isDlCur] at hcur
+      rw [this]; simp
+    · intro hs; rcases hmem _ hs with hx | hx; cases hx; exact ⟨hx.2, rfl⟩
+    · intro _ ho _ hidx
+      have := shutdown_present { st with storesDone := true } ho rfl hidx
+      rw [optAtoms_mkBatch]
+      cases hq : cmdShutdownWhenComplete { st with storesDone := true } with
+      | none => rw [hq, optAtoms_none] at this; cases this
+      | some q =>
+        rw [hq, optAtoms_some] at this
+        simp only [List.filterMap_cons, id, List.filterMap_nil, atomsList_cons, atomsList, List.append_nil, List.mem_append]
+        right; exact this
+    · intro hs; rcases hmem _ hs with hx | hx; cases hx; cases hx.1
+    · intro hs; rcases hmem _ hs with hx | hx; cases hx; cases hx.1
+  | walkerCompleted =>
+    simp only [update] at h; injection h with h; injection h with h3 h4; subst h3; subst h4
+    have hmem : ∀ x, x ∈ optAtoms (cmdShutdownWhenComplete { st with outDone := true }) → x = Cmd.shutdown ∧ st.storesDone = true := by
+      intro x hx; have := shutdown_atoms _ x hx; exact ⟨this.1, this.2.2⟩
+    refine ⟨(fun hc => hc.elim (fun h => nomatch h) (fun h => nomatch h)), ?_, (fun hc => nomatch hc), ?_, ?_, ?_, ?_, ?_, ?_⟩
+    · intro seg hs; cases (hmem _ hs).1
+    · intro hs; cases (hmem _ hs).1
+    · have : (optAtoms (cmdShutdownWhenComplete { st with outDone := true })).filter Cmd.isDlCur = [] := by
+        apply List.filter_eq_nil_iff.2
+        intro c hc hcur
+        rw [(hmem c hc).1] at hcur; simp [Cmd.isDlCur] at hcur
+      rw [this]; simp
+    · intro hs; exact ⟨rfl, (hmem _ hs).2⟩
+    · intro _ _ hsd hidx; exact shutdown_present { st with outDone := true } rfl hsd hidx
+    · intro hs; cases (hmem _ hs).1
+    · intro hs; cases (hmem _ hs).1
+  | fileNotPresent =>
+    simp only [update] at h; injection h with h; injection h with h3 h4; subst h3; subst h4
+    have hat : optAtoms (mkBatch [some Cmd.downloadSegment]) = [Cmd.downloadSegment] := by
+      rw [optAtoms_mkBatch]; simp [atomsList, Cmd.atoms]
+    constructor
+    · intro _; rw [hat]; simp
+    · intro seg hs; rw [hat] at hs; simp at hs
+    · intro hc; cases hc
+    · intro hs; rw [hat] at hs; simp at hs
+    · rw [hat]; simp [Cmd.isDlCur]
+    · intro hs; rw [hat] at hs; simp at hs
+    · intro hc; rcases hc with hc | hc <;> cases hc
+    · rw [hat]; simp
+    · intro hs; rw [hat] at hs; simp at hs
+  | fileDownloaded =>
+    simp only [update] at h; injection h with h; injection h with h3 h4; subst h3; subst h4
+    have hat : optAtoms (mkBatch [some Cmd.downloadSegment]) = [Cmd.downloadSegment] := by
+      rw [optAtoms_mkBatch]; simp [atomsList, Cmd.atoms]
+    constructor
+    · intro _; rw [hat]; simp
+    · intro seg hs; rw [hat] at hs; simp at hs
+    · intro hc; cases hc
+    · intro hs; rw [hat] at hs; simp at hs
+    · rw [hat]; simp [Cmd.isDlCur]
+    · intro hs; rw [hat] at hs; simp at hs
+    · intro hc; rcases hc with hc | hc <;> cases hc
+    · rw [hat]; simp
+    · intro hs; rw [hat] at hs; simp at hs
+  | downloadSegment =>
+    have empty : ∀ (st' : State), (∀ w, st.walker = some w → w.working = true) → CtrlAtoms st st' .downloadSegment none := by
+      intro st' hwk
+      constructor
+      · intro hc; rcases hc with hc | hc <;> cases hc
+      · intro seg hs; rw [optAtoms_none] at hs; cases hs
+      · intro _ w hw' hnw; rw [hwk w hw'] at hnw; cases hnw
+      · intro hs; rw [optAtoms_none] at hs; cases hs
+      · rw [optAtoms_none]; simp
+      · intro hs; rw [optAtoms_none] at hs; cases hs
+      · intro hc; rcases hc with hc | hc <;> cases hc
+      · rw [optAtoms_none]; simp
+      · intro hs; rw [optAtoms_none] at hs; cases hs
+    unfold update at h
+    simp only at h
+    split at h
+    · rename_i hwk
+      injection h with h; injection h with h3 h4; subst h3; subst h4
+      exact empty _ (by intro w hw'; rw [hwk] at hw'; cases hw')
+    · rename_i w hwk
+      split at h
+      · rename_i hworking
+        injection h with h; injection h with h3 h4; subst h3; subst h4
+        exact empty _ (by intro w' hw'; rw [hwk] at hw'; injection hw' with hw'; subst hw'; exact hworking)
+      · rename_i hworking
+        have hnw : w.working = false := by simpa using hworking
+        split at h
+        · rename_i hdone
+          have hdone' : w.isDone = true := by simpa [Walker.isDone] using hdone
+          injection h with h; injection h with h3 h4; subst h3; subst h4
+          have hat : optAtoms (some Cmd.walkerCompleted) = [Cmd.walkerCompleted] := by rw [optAtoms_some]; rfl
+          constructor
+          · intro hc; rcases hc with hc | hc <;> cases hc
+          · intro seg hs; rw [hat] at hs; simp at hs
+          · intro _ w' hw' _
+            rw [hwk] at hw'; injection hw' with hw'; subst hw'
+            refine ⟨fun _ => ?_, fun hnd => ?_⟩
+            · rw [hat]; simp
+            · rw [hdone'] at hnd; cases hnd
+          · intro _; exact ⟨rfl, w, hwk, hnw, hdone'⟩
+          · rw [hat]; simp [Cmd.isDlCur]
+          · intro hs; rw [hat] at hs; simp at hs
+          · intro hc; rcases hc with hc | hc <;> cases hc
+          · rw [hat]; simp
+          · intro hs; rw [hat] at hs; simp at hs
+        · rename_i hdone
+          have hdone' : w.isDone = false := by simpa [Walker.isDone] using hdone
+          injection h with h; injection h with h3 h4; subst h3; subst h4
+          have hat : optAtoms (mkBatch [some (Cmd.downloadCurrent w.cur)]) = [Cmd.downloadCurrent w.cur] := by
+            rw [optAtoms_mkBatch]; simp [atomsList, Cmd.atoms]
+          constructor
+          · intro hc; rcases hc with hc | hc <;> cases hc
+          · intro seg hs
+            rw [hat] at hs; simp at hs; subst hs
+            exact ⟨rfl, w, hwk, hnw, hdone', rfl⟩
+          · intro _ w' hw' _
+            rw [hwk] at hw'; injection hw' with hw'; subst hw'
+            refine ⟨fun hd => ?_, fun _ => ?_⟩
+            · rw [hdone'] at hd; cases hd
+            · rw [hat]; simp
+          · intro hs; rw [hat] at hs; simp at hs
+          · rw [hat]; exact Nat.le_refl 1
+          · intro hs; rw [hat] at hs; simp at hs
+          · intro hc; rcases hc with hc | hc <;> cases hc
+          · rw [hat]; simp
+          · intro hs; rw [hat] at hs; simp at hs
+
+/-! ### which message a command answers with -/
+
+inductive Answers : Cmd → Msg → Prop
+  | sched : Answers .scheduleNextJob .scheduleNextJob
+  | tick : Answers .tick .scheduleNextJob
+  | all : Answers .allStoresCompleted .allStoresCompleted
+  | notReady (u : WorkUnit) : Answers (.mergeNotReady u) (.mergeNotReady u)
+  | merged (u : WorkUnit) : Answers (.merge u) (.mergeFinished u)
+  | mergeFailed (u : WorkUnit) : Answers (.merge u) (.mergeFailed u)
+  | dl : Answers .downloadSegment .downloadSegment
+  | absent (seg : Nat) : Answers (.downloadCurrent seg) .fileNotPresent
+  | present (seg : Nat) : Answers (.downloadCurrent seg) .fileDownloaded
+  | wc : Answers .walkerCompleted .walkerCompleted
+  | job (u : WorkUnit) (sb w : Nat) : Answers (.job u sb w) (.jobSucceeded u w)
+
+theorem exec_answers (st : State) (c : Cmd) (m : Msg) (h : (exec st c).2 = .msg m) : Answers c m := by
+  cases c with
+  | merge u =>
+    unfold exec at h; simp only at h
+    split at h <;> (injection h with h; subst h)
+    · exact .mergeFailed u
+    · exact .merged u
+  | downloadCurrent seg =>
+    unfold exec at h; simp only at h
+    split at h
+    · injection h with h; subst h; exact .absent seg
+    · split at h
+      · injection h with h; subst h; exact .absent seg
+      · split at h <;> (injection h with h; subst h)
+        · exact .present seg
+        · exact .absent seg
+  | batch l => simp [exec] at h
+  | scheduleNextJob => simp only [exec] at h; injection h with h; subst h; exact .sched
+  | allStoresCompleted => simp only [exec] at h; injection h with h; subst h; exact .all
+  | mergeNotReady u => simp only [exec] at h; injection h with h; subst h; exact .notReady u
+  | downloadSegment => simp only [exec] at h; injection h with h; subst h; exact .dl
+  | walkerCompleted => simp only [exec] at h; injection h with h; subst h; exact .wc
+  | shutdown => simp [exec] at h
+  | quit e => simp [exec] at h
+  | tick => simp only [exec] at h; injection h with h; subst h; exact .tick
+  | job u sb w => simp only [exec] at h; injection h with h; subst h; exact .job u sb w
+
+/-- a file that was downloaded exists -/
+theorem exec_present (st : State) (seg : Nat) (h : (exec st (.downloadCurrent seg)).2 = .msg .fileDownloaded) :
+    ∃ w r, st.walker = some w ∧ w.seg.range? seg = some r ∧ st.files.hasOutput r.start r.stop = true := by
+  unfold exec at h; simp only at h
+  split at h
+  · injection h with h; cases h
+  · rename_i w hw
+    split at h
+    · injection h with h; cases h
+    · rename_i r hr
+      split at h
+      · rename_i hf; exact ⟨w, r, hw, hr, hf⟩
+      · injection h with h; cases h
+
+theorem exec_quit_cases (st : State) (c : Cmd) (b : Bool) (h : (exec st c).2 = .quit b) :
+    (c = .shutdown ∧ b = false) ∨ c = .quit b := by
+  cases c with
+  | merge u => unfold exec at h; simp only at h; split at h <;> cases h
+  | downloadCurrent seg =>
+    unfold exec at h; simp only at h
+    split at h
+    · cases h
+    · split at h
+      · cases h
+      · split at h <;> cases h
+  | shutdown => simp only [exec] at h; injection h with h; exact Or.inl ⟨rfl, h.symm⟩
+  | quit e => simp only [exec] at h; injection h with h; subst h; exact Or.inr rfl
+  | batch l => simp [exec] at h
+  | scheduleNextJob => simp [exec] at h
+  | allStoresCompleted => simp [exec] at h
+  | mergeNotReady u => simp [exec] at h
+  | downloadSegment => simp [exec] at h
+  | walkerCompleted => simp [exec] at h
+  | tick => simp [exec] at h
+  | job u sb w => simp [exec] at h
+
+/-- executing a command does not touch the walker nor the flags -/
+theorem exec_walker (st : State) (c : Cmd) :
+    (exec st c).1.walker = st.walker ∧ (exec st c).1.outDone = st.outDone ∧ (exec st c).1.storesDone = st.storesDone := by
+  cases c with
+  | merge u => unfold exec; simp only; split <;> exact ⟨rfl, rfl, rfl⟩
+  | downloadCurrent seg =>
+    unfold exec; simp only
+    split
+    · exact ⟨rfl, rfl, rfl⟩
+    · split
+      · exact ⟨rfl, rfl, rfl⟩
+      · split <;> exact ⟨rfl, rfl, rfl⟩
+  | batch l => exact ⟨rfl, rfl, rfl⟩
+  | scheduleNextJob => exact ⟨rfl, rfl, rfl⟩
+  | allStoresCompleted => exact ⟨rfl, rfl, rfl⟩
+  | mergeNotReady u => exact ⟨rfl, rfl, rfl⟩
+  | downloadSegment => exact ⟨rfl, rfl, rfl⟩
+  | walkerCompleted => exact ⟨rfl, rfl, rfl⟩
+  | shutdown => exact ⟨rfl, rfl, rfl⟩
+  | quit e => exact ⟨rfl, rfl, rfl⟩
+  | tick => exact ⟨rfl, rfl, rfl⟩
+  | job u sb w => exact ⟨rfl, rfl, rfl⟩
+
+theorem mem_of_perm_not_head {F A : List Cmd} {c x : Cmd} (hp : F.Perm (c :: A)) (hx : x ∈ F) (hne : x ≠ c) : x ∈ A := by
+  have := hp.mem_iff.1 hx
+  rcases List.mem_cons.1 this with h | h
+  · exact absurd h hne
+  · exact h
+
+/-- everything known about a step that delivers a message -/
+structure MsgStep (st : State) (idx : Nat) (e : Bool) (c : Cmd) (m : Msg) (st1 st2 : State) (oc : Option Cmd) : Prop where
+  perm    : st.inFlight.Perm (c :: atomsList (st.bag.eraseIdx idx))
+  ans     : Answers c m
+  walker1 : st1.walker = st.walker
+  out1    : st1.outDone = st.outDone
+  stores1 : st1.storesDone = st.storesDone
+  ended1  : st1.ended = st.ended
+  same1   : SameMatrix st.stages st1.stages
+  kinds1  : st1.stages.stages.map (·.kind) = st.stages.stages.map (·.kind)
+  sseg1   : st1.stages.storeSeg = st.stages.storeSeg
+  idx1    : st1.stages.outIsIndex = st.stages.outIsIndex
+  evo     : Evo st1 st2 m
+  ctrl    : CtrlAtoms st1 st2 m oc
+  cn      : StableCN st1.stages st2.stages
+  kinds2  : st2.stages.stages.map (·.kind) = st1.stages.stages.map (·.kind)
+  sseg2   : st2.stages.storeSeg = st1.stages.storeSeg
+  flight  : ({ st2 with bag := st2.bag ++ oc.toList } : State).inFlight = atomsList (st.bag.eraseIdx idx) ++ optAtoms oc
+  outs    : ∀ a b, st.files.hasOutput a b = true → st2.files.hasOutput a b = true
+
+theorem runMerge_kinds {s s' : Stages} {u : WorkUnit} {f f' : Files} (h : runMerge s u f = some (s', f')) :
+    s'.stages.map (·.kind) = s.stages.map (·.kind) ∧ s'.storeSeg = s.storeSeg ∧ s'.outIsIndex = s.outIsIndex := by
+  unfold runMerge at h
+  simp only at h
+  split at h
+  · cases h
+  · injection h with h; injection h with h1 _; subst h1
+    refine ⟨?_, rfl, rfl⟩
+    unfold Stages.setStage
+    simp only
+    apply List.ext_getElem?
+    intro j
+    simp only [List.getElem?_map, List.getElem?_set]
+    by_cases hj : u.stage = j
+    · subst hj
+      by_cases hlt : u.stage < s.stages.length
+      · simp only [hlt, if_true, Option.map_some]
+        unfold Stages.stageAt
+        rw [List.getD_eq_getElem?_getD, List.getElem?_eq_getElem hlt]
+        simp
+      · simp [hlt, List.getElem?_eq_none (Nat.le_of_not_lt hlt)]
+    · simp [hj]
+
+theorem exec_kinds (st : State) (c : Cmd) :
+    (exec st c).1.stages.stages.map (·.kind) = st.stages.stages.map (·.kind) ∧
+    (exec st c).1.stages.storeSeg = st.stages.storeSeg ∧ (exec st c).1.stages.outIsIndex = st.stages.outIsIndex := by
+  cases c with
+  | merge u =>
+    unfold exec; simp only
+    split
+    · exact ⟨rfl, rfl, rfl⟩
+    · rename_i s' f' h; exact runMerge_kinds h
+  | downloadCurrent seg =>
+    unfold exec; simp only
+    split
+    · exact ⟨rfl, rfl, rfl⟩
+    · split
+      · exact ⟨rfl, rfl, rfl⟩
+      · split <;> exact ⟨rfl, rfl, rfl⟩
+  | batch l => exact ⟨rfl, rfl, rfl⟩
+  | scheduleNextJob => exact ⟨rfl, rfl, rfl⟩
+  | allStoresCompleted => exact ⟨rfl, rfl, rfl⟩
+  | mergeNotReady u => exact ⟨rfl, rfl, rfl⟩
+  | downloadSegment => exact ⟨rfl, rfl, rfl⟩
+  | walkerCompleted => exact ⟨rfl, rfl, rfl⟩
+  | shutdown => exact ⟨rfl, rfl, rfl⟩
+  | quit e => exact ⟨rfl, rfl, rfl⟩
+  | tick => exact ⟨rfl, rfl, rfl⟩
+  | job u sb w => exact ⟨rfl, rfl, rfl⟩
+
+theorem msgStep_of (st : State) (idx : Nat) (e : Bool) (c : Cmd) (m : Msg) (st1 st2 : State) (oc : Option Cmd)
+    (hg : Good st) (hc : st.bag[idx]? = some c)
+    (hex : exec { st with bag := st.bag.eraseIdx idx } c = (st1, .msg m)) (hupd : update st1 m e = .ok (st2, oc)) :
+    MsgStep st idx e c m st1 st2 oc := by
+  have hperm := atomsList_eraseIdx_perm st.bag idx c hc
+  have hnb : ∀ l, c ≠ .batch l := by intro l hl; subst hl; simp [exec] at hex
+  rw [atoms_of_not_batch c hnb] at hperm
+  have hs := exec_same { st with bag := st.bag.eraseIdx idx } c
+  have hwk := exec_walker { st with bag := st.bag.eraseIdx idx } c
+  have hkd := exec_kinds { st with bag := st.bag.eraseIdx idx } c
+  rw [hex] at hs hwk hkd
+  simp only at hs hwk hkd
+  obtain ⟨hfix1, _, hbag1, hend1, hpool1, hsm⟩ := hs
+  have hbag : BagOK st.stages st.pool (c :: atomsList (st.bag.eraseIdx idx)) := hg.inv.bag.perm hperm
+  have hpre : MsgPre st1.stages st1.pool (atomsList (st.bag.eraseIdx idx)) m := by
+    have := exec_msg_pre { st with bag := st.bag.eraseIdx idx } c (atomsList (st.bag.eraseIdx idx)) m hbag (by rw [hex])
+    rw [hex] at this; exact this
+  have hf1 : st1.fix.shadow = true := by rw [hfix1]; exact hg.inv.fix
+  have hw1 : st1.stages.WF := hsm.wf hg.inv.wf
+  have hoff1 : st1.stages.offset ≤ st1.stages.globalSeg.firstIndex := by rw [hsm.offset, hsm.global]; exact hg.inv.off
+  have hcn := update_stableCN st1 st2 _ m e oc hf1 hw1 hoff1 hpre hupd
+  have hevo := update_evo st1 st2 m e oc hf1 hw1 hoff1 hupd
+  obtain ⟨st2', oc', hupd', hp'⟩ := update_spec st1 (atomsList (st.bag.eraseIdx idx)) m e hf1 hw1 (hsm.ok hg.inv.ok) hoff1
+    (by rw [hpool1]; exact (hbag.sublist (List.sublist_cons_self _ _)).sameMatrix hsm) hpre
+  rw [hupd] at hupd'
+  injection hupd' with hupd'; injection hupd' with e1 e2; subst e1; subst e2
+  refine ⟨hperm, exec_answers _ c m (by rw [hex]), hwk.1, hwk.2.1, hwk.2.2, hend1, hsm, hkd.1, hkd.2.1, hkd.2.2, hevo,
+    update_ctrl st1 st2 m e oc hw1 hupd, hcn.1, hcn.2.1, hcn.2.2, ?_, ?_⟩
+  · show atomsList (st2.bag ++ oc.toList) = _
+    rw [hp'.bagE, hbag1, atomsList_append]; rfl
+  · intro a b hab
+    rw [hevo.files]
+    have := exec_outputs { st with bag := st.bag.eraseIdx idx } c a b hab
+    rw [hex] at this; exact this
+
+/-! ### the two final flags, the shutdown command, the all-stores-completed signal -/
+
+structure LiveF (st : State) : Prop where
+  both   : st.outDone = true → st.storesDone = true → st.ended = none →
+    (st.walker.isSome = true ∨ st.stages.outIsIndex = false) → Cmd.shutdown ∈ st.inFlight
+  shut   : Cmd.shutdown ∈ st.inFlight → st.outDone = true ∧ st.storesDone = true
+  quitF  : Cmd.quit false ∉ st.inFlight
+  allA   : (Cmd.allStoresCompleted ∈ st.inFlight ∨ st.storesDone = true) → st.stages.allStoresCompleted = true
+  endNil : st.ended = some .quitNil → st.outDone = true ∧ st.storesDone = true ∧ st.stages.allStoresCompleted = true
+
+theorem walker_isSome_evo {st st' : State} {m : Msg} (h : Evo st st' m) : st'.walker.isSome = st.walker.isSome := by
+  rw [h.walker]
+  cases m <;> simp
+
+theorem step_liveF (st : State) (idx : Nat) (e : Bool) (hg : Good st) (h : LiveF st) : LiveF (step st idx e) := by
+  have hk := step_kind st idx e
+  have hgood' := step_good st idx e hg
+  generalize step st idx e = s' at hk hgood'
+  cases hk with
+  | idle => exact h
+  | batch l hend hc =>
+    have hperm := atomsList_eraseIdx_perm st.bag idx _ hc
+    have hfl : ({ st with bag := st.bag.eraseIdx idx ++ l } : State).inFlight.Perm st.inFlight := by
+      show (atomsList (st.bag.eraseIdx idx ++ l)).Perm _
+      rw [atomsList_append]
+      have hp2 : (atomsList l ++ atomsList (st.bag.eraseIdx idx)).Perm (atomsList st.bag) := by
+        simpa [Cmd.atoms] using hperm.symm
+      exact List.perm_append_comm.trans hp2
+    exact ⟨fun h1 h2 h3 h4 => hfl.mem_iff.2 (h.both h1 h2 h3 h4), fun hq => h.shut (hfl.mem_iff.1 hq),
+      fun hq => h.quitF (hfl.mem_iff.1 hq),
+      fun ha => h.allA (ha.elim (fun x => Or.inl (hfl.mem_iff.1 x)) Or.inr), h.endNil⟩
+  | quit c b st1 hend hc hex =>
+    have hperm := atomsList_eraseIdx_perm st.bag idx c hc
+    have hcases := exec_quit_cases _ c b (by rw [hex])
+    have hs := exec_same { st with bag := st.bag.eraseIdx idx } c
+    have hwk := exec_walker { st with bag := st.bag.eraseIdx idx } c
+    rw [hex] at hs hwk
+    simp only at hs hwk
+    have hnb : ∀ l, c ≠ .batch l := by intro l hl; subst hl; simp [exec] at hex
+    rw [atoms_of_not_batch c hnb] at hperm
+    have hsub : ∀ x, x ∈ atomsList st1.bag → x ∈ st.inFlight := by
+      intro x hx
+      rw [hs.2.2.1] at hx
+      exact hperm.mem_iff.2 (List.mem_cons_of_mem _ hx)
+    have hst1 : st1 = { st with bag := st.bag.eraseIdx idx } := by
+      rcases hcases with ⟨hc1, _⟩ | hc1 <;> subst hc1 <;> simp [exec] at hex <;> first | exact hex.1.symm | exact hex.symm
+    refine ⟨?_, ?_, ?_, ?_, ?_⟩
+    · intro _ _ he _; simp at he
+    · intro hq; have := h.shut (hsub _ hq); rw [hwk.2.1, hwk.2.2]; exact this
+    · intro hq; exact h.quitF (hsub _ hq)
+    · intro ha
+      show st1.stages.allStoresCompleted = true
+      rw [hst1]
+      apply h.allA
+      rcases ha with ha | ha
+      · exact Or.inl (hsub _ ha)
+      · right; rw [← hwk.2.2]; exact ha
+    · intro hq
+      have hb : b = false := by
+        simp only [Option.some.injEq] at hq
+        cases b
+        · rfl
+        · simp at hq
+      subst hb
+      have hcq : c = .shutdown := by
+        rcases hcases with ⟨hc1, _⟩ | hc1
+        · exact hc1
+        · exfalso; subst hc1; exact h.quitF (hperm.mem_iff.2 (List.mem_cons_self))
+      subst hcq
+      have hfl := h.shut (hperm.mem_iff.2 (List.mem_cons_self))
+      refine ⟨by show st1.outDone = true; rw [hwk.2.1]; exact hfl.1, by show st1.storesDone = true; rw [hwk.2.2]; exact hfl.2, ?_⟩
+      show st1.stages.allStoresCompleted = true
+      rw [hst1]; exact h.allA (Or.inr hfl.2)
+  | panic c m st1 err hend hc hex hupd =>
+    exact absurd rfl (hgood'.noPanic err)
+  | msg c m st1 st2 oc hend hc hex hupd =>
+    have ms := msgStep_of st idx e c m st1 st2 oc hg hc hex hupd
+    have hflight := ms.flight
+    have hneq : ∀ x, x ∈ st.inFlight → x ≠ c → x ∈ atomsList (st.bag.eraseIdx idx) := fun x hx hne => mem_of_perm_not_head ms.perm hx hne
+    have hsub : ∀ x, x ∈ atomsList (st.bag.eraseIdx idx) → x ∈ st.inFlight := fun x hx => ms.perm.mem_iff.2 (List.mem_cons_of_mem _ hx)
+    have hcin : c ∈ st.inFlight := ms.perm.mem_iff.2 (List.mem_cons_self)
+    have hout2 : st2.outDone = (st.outDone || m == .walkerCompleted) := by rw [ms.evo.outDone, ms.out1]
+    have hsto2 : st2.storesDone = (st.storesDone || m == .allStoresCompleted) := by rw [ms.evo.storesDone, ms.stores1]
+    have hall_mono : st.stages.allStoresCompleted = true → st2.stages.allStoresCompleted = true := by
+      intro ha
+      have h1 : st1.stages.allStoresCompleted = true :=
+        allStoresCompleted_mono (fun seg stg _ => ms.same1.get seg stg) ms.kinds1 ms.sseg1 ha
+      exact allStoresCompleted_mono ms.cn ms.kinds2 ms.sseg2 h1
+    refine ⟨?_, ?_, ?_, ?_, ?_⟩
+    · intro ho hs he hcond
+      show Cmd.shutdown ∈ ({ st2 with bag := st2.bag ++ oc.toList } : State).inFlight
+      rw [hflight]
+      have ho' : st2.outDone = true := ho
+      have hs' : st2.storesDone = true := hs
+      have hcond' : st2.walker.isSome = true ∨ st2.stages.outIsIndex = false := hcond
+      by_cases hold : st.outDone = true ∧ st.storesDone = true
+      · -- both flags were set before: the shutdown command is already in flight
+        have hq := h.both hold.1 hold.2 hend (by
+          rcases hcond' with hw | hi
+          · left; rw [walker_isSome_evo ms.evo, ms.walker1] at hw; exact hw
+          · right; rw [ms.evo.outIsIndex, ms.idx1] at hi; exact hi)
+        refine List.mem_append.2 (Or.inl (hneq _ hq ?_))
+        intro hcq; subst hcq; cases ms.ans
+      · -- one of them is set by this message
+        refine List.mem_append.2 (Or.inr (ms.ctrl.shutOut ?_ ho' hs' hcond'))
+        rw [hout2] at ho'; rw [hsto2] at hs'
+        by_cases hm1 : m = .allStoresCompleted
+        · exact Or.inl hm1
+        · by_cases hm2 : m = .walkerCompleted
+          · exact Or.inr hm2
+          · exfalso; apply hold
+            simp [hm1, hm2] at ho' hs'
+            exact ⟨ho', hs'⟩
+    · intro hq
+      have hq' : Cmd.shutdown ∈ atomsList (st.bag.eraseIdx idx) ++ optAtoms oc := by rw [← hflight]; exact hq
+      show st2.outDone = true ∧ st2.storesDone = true
+      rcases List.mem_append.1 hq' with hq' | hq'
+      · have := h.shut (hsub _ hq')
+        rw [hout2, hsto2, this.1, this.2]; simp
+      · exact ms.ctrl.shutIn hq'
+    · intro hq
+      have hq' : Cmd.quit false ∈ atomsList (st.bag.eraseIdx idx) ++ optAtoms oc := by rw [← hflight]; exact hq
+      rcases List.mem_append.1 hq' with hq' | hq'
+      · exact h.quitF (hsub _ hq')
+      · exact ms.ctrl.quitF hq'
+    · intro ha
+      show st2.stages.allStoresCompleted = true
+      rcases ha with ha | ha
+      · have ha' : Cmd.allStoresCompleted ∈ atomsList (st.bag.eraseIdx idx) ++ optAtoms oc := by rw [← hflight]; exact ha
+        rcases List.mem_append.1 ha' with ha' | ha'
+        · exact hall_mono (h.allA (Or.inl (hsub _ ha')))
+        · exact ms.ctrl.allIn ha'
+      · have ha' : st2.storesDone = true := ha
+        rw [hsto2] at ha'
+        by_cases hold : st.storesDone = true
+        · exact hall_mono (h.allA (Or.inr hold))
+        · have hm : m = .allStoresCompleted := by
+            simp [hold] at ha'; exact ha'
+          subst hm
+          have hca : c = .allStoresCompleted := by cases ms.ans; rfl
+          subst hca
+          exact hall_mono (h.allA (Or.inl hcin))
+    · intro hq
+      exfalso
+      have : st2.ended = some .quitNil := hq
+      rw [ms.evo.ended, ms.ended1, hend] at this; cases this
+
+/-- the atoms of the initial batch, explicitly -/
+theorem init_atoms_explicit (dl all : Option Cmd) (tm : List (Option Cmd))
+    (hdl : ∀ x ∈ dl.toList, x = Cmd.downloadSegment) (hall : ∀ x ∈ all.toList, x = Cmd.allStoresCompleted)
+    (htm : atomsList (tm.filterMap id) = tm.filterMap id) :
+    atomsList ([dl, some Cmd.scheduleNextJob, all, mkBatch tm].filterMap id) =
+      (dl.toList ++ [Cmd.scheduleNextJob] ++ all.toList) ++ tm.filterMap id := by
+  have hmb : optAtoms (mkBatch tm) = tm.filterMap id := by rw [optAtoms_mkBatch]; exact htm
+  rw [← hmb]
+  cases dl with
+  | none =>
+    cases all with
+    | none => cases hmk : mkBatch tm <;> simp [atomsList, Cmd.atoms, optAtoms]
+    | some a =>
+      have := hall a (by simp); subst this
+      cases hmk : mkBatch tm <;> simp [atomsList, Cmd.atoms, optAtoms]
+  | some d =>
+    have := hdl d (by simp); subst this
+    cases all with
+    | none => cases hmk : mkBatch tm <;> simp [atomsList, Cmd.atoms, optAtoms]
+    | some a =>
+      have := hall a (by simp); subst this
+      cases hmk : mkBatch tm <;> simp [atomsList, Cmd.atoms, optAtoms]
+
+theorem init_liveF {c : Cfg} {fix : Patch} {files : Files} {st : State} (hc : c.OK)
+    (h : init c fix files = .ok st) : LiveF st := by
+  unfold init at h
+  split at h
+  · cases h
+  · rename_i s hs
+    obtain ⟨hw, _, _, _⟩ := initStages_base hc hs
+    simp only at h
+    split at h
+    · cases h
+    · rename_i s1 tm htm
+      injection h with h; subst h
+      obtain ⟨t, _, _, hat⟩ := tryMergeList_spec _ s s1 tm hw htm
+      have hctrl := tryMergeList_ctrl _ s s1 tm hw htm
+      have hcn : StableCN s s1 := StableCN.of_step t.step (by intro seg stg hT; rw [hT]; simp)
+      have htm_atoms : atomsList (tm.filterMap id) = tm.filterMap id := atomsList_of_atomic _ (fun c hc => (hat c hc).1)
+      -- the commands in flight
+      have key : ∀ (dl all : Option Cmd), (∀ x ∈ dl.toList, x = Cmd.downloadSegment) →
+          (∀ x ∈ all.toList, x = Cmd.allStoresCompleted) → (all.isSome = true → s.allStoresCompleted = true) →
+          ∀ x ∈ optAtoms (mkBatch [dl, some Cmd.scheduleNextJob, all, mkBatch tm]),
+            x ≠ Cmd.shutdown ∧ x ≠ Cmd.quit false ∧ (x = Cmd.allStoresCompleted → s1.allStoresCompleted = true) := by
+        intro dl all hdl hall hallc x hx
+        rw [optAtoms_mkBatch, init_atoms_explicit dl all tm hdl hall htm_atoms] at hx
+        simp only [List.mem_append, List.mem_singleton] at hx
+        rcases hx with ((hx | hx) | hx) | hx
+        · rw [hdl x hx]; exact ⟨by simp, by simp, by intro hh; cases hh⟩
+        · subst hx; exact ⟨by simp, by simp, by intro hh; cases hh⟩
+        · rw [hall x hx]
+          refine ⟨by simp, by simp, fun _ => ?_⟩
+          have : all.isSome = true := by cases all <;> simp at hx ⊢
+          exact allStoresCompleted_mono hcn (by rw [t.rest.stages]) t.rest.storeSeg (hallc this)
+        · rcases (hctrl x hx).1 with e1 | ⟨u, e1⟩ | ⟨u, e1⟩
+          · subst e1; exact ⟨by simp, by simp, fun _ => (hctrl _ hx).2 rfl⟩
+          · subst e1; exact ⟨by simp, by simp, by intro hh; cases hh⟩
+          · subst e1; exact ⟨by simp, by simp, by intro hh; cases hh⟩
+      have hfl : ∀ x, x ∈ (atomsList (Option.toList (mkBatch
+          [if (match c.readExecOut, c.writeExecOut with
+              | some _, some w => if c.outIsMap = true then
+                  some (⟨⟨c.interval, max w.start c.outInit, w.stop⟩, (⟨c.interval, max w.start c.outInit, w.stop⟩ : Segmenter).firstIndex, false⟩ : Walker)
+                else none
+              | _, _ => none).isSome = true then some Cmd.downloadSegment else none,
+           some Cmd.scheduleNextJob,
+           if s.allStoresCompleted = true then some Cmd.allStoresCompleted else none, mkBatch tm]))) →
+          x ≠ Cmd.shutdown ∧ x ≠ Cmd.quit false ∧ (x = Cmd.allStoresCompleted → s1.allStoresCompleted = true) := by
+        apply key
+        · exact ite_some_toList _ _
+        · exact ite_some_toList _ _
+        · intro hsome
+          split at hsome
+          · assumption
+          · simp at hsome
+      refine ⟨?_, ?_, ?_, ?_, ?_⟩
+      · intro _ hsd; cases hsd
+      · intro hq; exact absurd rfl (hfl _ hq).1
+      · intro hq; exact absurd rfl (hfl _ hq).2.1
+      · intro ha
+        rcases ha with ha | ha
+        · exact (hfl _ ha).2.2 rfl
+        · cases ha
+      · intro he; cases he
+
+theorem reachable_liveF {c : Cfg} {fix : Patch} {files : Files} {st : State} (hc : c.OK) (hf : fix.shadow = true)
+    (h : Reachable c fix files st) : LiveF st := by
+  induction h with
+  | init h0 => exact init_liveF hc h0
+  | @step st0 idx e hr ih => exact step_liveF st0 idx e (reachable_good hc hf hr) ih
+
+/-! ### the walker -/
+
+structure LiveW (st : State) : Prop where
+  noWalker : st.walker = none → st.outDone = true
+  walkA : ∀ w, st.walker = some w → st.outDone = false → w.working = true →
+    (∃ seg, Cmd.downloadCurrent seg ∈ st.inFlight) ∨ Cmd.walkerCompleted ∈ st.inFlight
+  walkB : ∀ w, st.walker = some w → st.outDone = false → w.working = false → Cmd.downloadSegment ∈ st.inFlight
+  dlCur : ∀ seg, Cmd.downloadCurrent seg ∈ st.inFlight →
+    ∃ w, st.walker = some w ∧ w.working = true ∧ seg = w.cur ∧ w.isDone = false
+  dlOne : (st.inFlight.filter Cmd.isDlCur).length ≤ 1
+  wc : Cmd.walkerCompleted ∈ st.inFlight → ∃ w, st.walker = some w ∧ w.working = true ∧ w.isDone = true
+  doneW : st.outDone = true → ∀ w, st.walker = some w → w.isDone = true
+  outs : ∀ w, st.walker = some w → ∀ i, w.seg.firstIndex ≤ i → i < w.cur →
+    ∃ r, w.seg.range? i = some r ∧ st.files.hasOutput r.start r.stop = true
+
+theorem filter_len_perm_cons {F A : List Cmd} {c : Cmd} (p : Cmd → Bool) (hp : F.Perm (c :: A)) :
+    (A.filter p).length ≤ (F.filter p).length ∧ (p c = true → (A.filter p).length + 1 = (F.filter p).length) := by
+  rw [(hp.filter p).length_eq, List.filter_cons]
+  split
+  · rename_i hpc; simp
+  · rename_i hpc; exact ⟨Nat.le_refl _, fun h => absurd h hpc⟩
+
+theorem no_dlCur_of_filter_nil {l : List Cmd} (h : (l.filter Cmd.isDlCur).length = 0) : ∀ seg, Cmd.downloadCurrent seg ∉ l := by
+  intro seg hm
+  have : Cmd.downloadCurrent seg ∈ l.filter Cmd.isDlCur := List.mem_filter.2 ⟨hm, rfl⟩
+  have hnil : l.filter Cmd.isDlCur = [] := List.eq_nil_of_length_eq_zero h
+  rw [hnil] at this; cases this
+
+theorem filter_dlCur_nil {l : List Cmd} (h : ∀ seg, Cmd.downloadCurrent seg ∉ l) : (l.filter Cmd.isDlCur).length = 0 := by
+  have : l.filter Cmd.isDlCur = [] := by
+    apply List.filter_eq_nil_iff.2
+    intro c hc hcur
+    cases c <;> simp [Cmd.isDlCur] at hcur
+    exact h _ hc
+  rw [this]; rfl
+
+theorem step_liveW (st : State) (idx : Nat) (e : Bool) (hg : Good st) (h : LiveW st) : LiveW (step st idx e) := by
+  have hk := step_kind st idx e
+  have hgood' := step_good st idx e hg
+  generalize step st idx e = s' at hk hgood'
+  cases hk with
+  | idle => exact h
+  | batch l hend hc =>
+    have hperm := atomsList_eraseIdx_perm st.bag idx _ hc
+    have hfl : ({ st with bag := st.bag.eraseIdx idx ++ l } : State).inFlight.Perm st.inFlight := by
+      show (atomsList (st.bag.eraseIdx idx ++ l)).Perm _
+      rw [atomsList_append]
+      have hp2 : (atomsList l ++ atomsList (st.bag.eraseIdx idx)).Perm (atomsList st.bag) := by
+        simpa [Cmd.atoms] using hperm.symm
+      exact List.perm_append_comm.trans hp2
+    refine ⟨h.noWalker, ?_, ?_, ?_, ?_, ?_, h.doneW, h.outs⟩
+    · intro w hw ho hwk
+      rcases h.walkA w hw ho hwk with ⟨seg, hs⟩ | hs
+      · exact Or.inl ⟨seg, hfl.mem_iff.2 hs⟩
+      · exact Or.inr (hfl.mem_iff.2 hs)
+    · intro w hw ho hwk; exact hfl.mem_iff.2 (h.walkB w hw ho hwk)
+    · intro seg hs; exact h.dlCur seg (hfl.mem_iff.1 hs)
+    · rw [(hfl.filter _).length_eq]; exact h.dlOne
+    · intro hs; exact h.wc (hfl.mem_iff.1 hs)
+  | quit c b st1 hend hc hex =>
+    have hperm := atomsList_eraseIdx_perm st.bag idx c hc
+    have hcases := exec_quit_cases _ c b (by rw [hex])
+    have hnb : ∀ l, c ≠ .batch l := by intro l hl; subst hl; simp [exec] at hex
+    rw [atoms_of_not_batch c hnb] at hperm
+    have hst1 : st1 = { st with bag := st.bag.eraseIdx idx } := by
+      rcases hcases with ⟨hc1, _⟩ | hc1 <;> subst hc1 <;> simp [exec] at hex <;> first | exact hex.1.symm | exact hex.symm
+    subst hst1
+    have hsub : ∀ x, x ∈ atomsList (st.bag.eraseIdx idx) → x ∈ st.inFlight :=
+      fun x hx => hperm.mem_iff.2 (List.mem_cons_of_mem _ hx)
+    have hkeep : ∀ x, x ∈ st.inFlight → x ≠ Cmd.shutdown → (∀ b', x ≠ Cmd.quit b') → x ∈ atomsList (st.bag.eraseIdx idx) := by
+      intro x hx h1 h2
+      apply mem_of_perm_not_head hperm hx
+      intro hxc; subst hxc
+      rcases hcases with ⟨hc1, _⟩ | hc1
+      · exact h1 hc1
+      · exact h2 _ hc1
+    refine ⟨h.noWalker, ?_, ?_, ?_, ?_, ?_, h.doneW, h.outs⟩
+    · intro w hw ho hwk
+      rcases h.walkA w hw ho hwk with ⟨seg, hs⟩ | hs
+      · exact Or.inl ⟨seg, hkeep _ hs (by simp) (by simp)⟩
+      · exact Or.inr (hkeep _ hs (by simp) (by simp))
+    · intro w hw ho hwk; exact hkeep _ (h.walkB w hw ho hwk) (by simp) (by simp)
+    · intro seg hs; exact h.dlCur seg (hsub _ hs)
+    · have hperm' : st.inFlight.Perm (c :: atomsList (st.bag.eraseIdx idx)) := hperm
+      have := (filter_len_perm_cons Cmd.isDlCur hperm').1
+      have h1 := h.dlOne
+      show ((atomsList (st.bag.eraseIdx idx)).filter Cmd.isDlCur).length ≤ 1
+      omega
+    · intro hs; exact h.wc (hsub _ hs)
+  | panic c m st1 err hend hc hex hupd => exact absurd rfl (hgood'.noPanic err)
+  | msg c m st1 st2 oc hend hc hex hupd =>
+    have ms := msgStep_of st idx e c m st1 st2 oc hg hc hex hupd
+    have hflight := ms.flight
+    have hneq : ∀ x, x ∈ st.inFlight → x ≠ c → x ∈ atomsList (st.bag.eraseIdx idx) := fun x hx hne => mem_of_perm_not_head ms.perm hx hne
+    have hsub : ∀ x, x ∈ atomsList (st.bag.eraseIdx idx) → x ∈ st.inFlight := fun x hx => ms.perm.mem_iff.2 (List.mem_cons_of_mem _ hx)
+    have hcin : c ∈ st.inFlight := ms.perm.mem_iff.2 (List.mem_cons_self)
+    have hout2 : st2.outDone = (st.outDone || m == .walkerCompleted) := by rw [ms.evo.outDone, ms.out1]
+    have hcount := filter_len_perm_cons Cmd.isDlCur ms.perm
+    have hmemNew : ∀ x, x ∈ ({ st2 with bag := st2.bag ++ oc.toList } : State).inFlight ↔
+        x ∈ atomsList (st.bag.eraseIdx idx) ∨ x ∈ optAtoms oc := by
+      intro x; rw [hflight]; exact List.mem_append
+    have hfiles : ∀ a b, st.files.hasOutput a b = true → st2.files.hasOutput a b = true := ms.outs
+    -- generic preservation when the walker is untouched and the command is none of L, K, D
+    have generic : st2.walker = st.walker → (∀ seg, c ≠ .downloadCurrent seg) → c ≠ .walkerCompleted → c ≠ .downloadSegment →
+        m ≠ .downloadSegment → st2.outDone = st.outDone → LiveW { st2 with bag := st2.bag ++ oc.toList } := by
+      intro hw2 hc1 hc2 hc3 hm3 ho2
+      refine ⟨?_, ?_, ?_, ?_, ?_, ?_, ?_, ?_⟩
+      · intro hwn; show st2.outDone = true; rw [ho2]; exact h.noWalker (by rw [← hw2]; exact hwn)
+      · intro w hw ho hwk
+        have hw' : st.walker = some w := by rw [← hw2]; exact hw
+        have ho' : st.outDone = false := by rw [← ho2]; exact ho
+        rcases h.walkA w hw' ho' hwk with ⟨seg, hs⟩ | hs
+        · exact Or.inl ⟨seg, (hmemNew _).2 (Or.inl (hneq _ hs (fun hcc => hc1 seg hcc.symm)))⟩
+        · exact Or.inr ((hmemNew _).2 (Or.inl (hneq _ hs (fun hcc => hc2 hcc.symm))))
+      · intro w hw ho hwk
+        have hw' : st.walker = some w := by rw [← hw2]; exact hw
+        have ho' : st.outDone = false := by rw [← ho2]; exact ho
+        exact (hmemNew _).2 (Or.inl (hneq _ (h.walkB w hw' ho' hwk) (fun hcc => hc3 hcc.symm)))
+      · intro seg hs
+        rcases (hmemNew _).1 hs with hs | hs
+        · obtain ⟨w, hw, rest⟩ := h.dlCur seg (hsub _ hs)
+          exact ⟨w, by show st2.walker = some w; rw [hw2]; exact hw, rest⟩
+        · exact absurd (ms.ctrl.curIn seg hs).1 hm3
+      · show (({ st2 with bag := st2.bag ++ oc.toList } : State).inFlight.filter Cmd.isDlCur).length ≤ 1
+        rw [hflight, List.filter_append, List.length_append]
+        have h0 : ((optAtoms oc).filter Cmd.isDlCur).length = 0 :=
+          filter_dlCur_nil (fun seg hs => hm3 (ms.ctrl.curIn seg hs).1)
+        have h1 := h.dlOne
+        have := hcount.1
+        omega
+      · intro hs
+        rcases (hmemNew _).1 hs with hs | hs
+        · obtain ⟨w, hw, rest⟩ := h.wc (hsub _ hs)
+          exact ⟨w, by show st2.walker = some w; rw [hw2]; exact hw, rest⟩
+        · exact absurd (ms.ctrl.wcIn hs).1 hm3
+      · intro ho w hw
+        exact h.doneW (by rw [← ho2]; exact ho) w (by rw [← hw2]; exact hw)
+      · intro w hw i h1 h2
+        obtain ⟨r, hr, hf⟩ := h.outs w (by rw [← hw2]; exact hw) i h1 h2
+        exact ⟨r, hr, hfiles _ _ hf⟩
+    cases hans : ms.ans with
+    | sched => exact generic (by rw [ms.evo.walker, ms.walker1]) (by simp) (by simp) (by simp) (by simp) (by rw [hout2]; simp)
+    | tick => exact generic (by rw [ms.evo.walker, ms.walker1]) (by simp) (by simp) (by simp) (by simp) (by rw [hout2]; simp)
+    | all => exact generic (by rw [ms.evo.walker, ms.walker1]) (by simp) (by simp) (by simp) (by simp) (by rw [hout2]; simp)
+    | notReady u => exact generic (by rw [ms.evo.walker, ms.walker1]) (by simp) (by simp) (by simp) (by simp) (by rw [hout2]; simp)
+    | merged u => exact generic (by rw [ms.evo.walker, ms.walker1]) (by simp) (by simp) (by simp) (by simp) (by rw [hout2]; simp)
+    | mergeFailed u => exact generic (by rw [ms.evo.walker, ms.walker1]) (by simp) (by simp) (by simp) (by simp) (by rw [hout2]; simp)
+    | job u sb w => exact generic (by rw [ms.evo.walker, ms.walker1]) (by simp) (by simp) (by simp) (by simp) (by rw [hout2]; simp)
+    | wc =>
+      -- the walker is done: outputStreamCompleted is set
+      have hw2 : st2.walker = st.walker := by rw [ms.evo.walker, ms.walker1]
+      have ho2 : st2.outDone = true := by rw [hout2]; simp
+      obtain ⟨w0, hw0, hwk0, hdone0⟩ := h.wc hcin
+      refine ⟨fun _ => ho2, ?_, ?_, ?_, ?_, ?_, ?_, ?_⟩
+      · intro w _ ho; rw [ho2] at ho; cases ho
+      · intro w _ ho; rw [ho2] at ho; cases ho
+      · intro seg hs
+        rcases (hmemNew _).1 hs with hs | hs
+        · obtain ⟨w, hw, rest⟩ := h.dlCur seg (hsub _ hs)
+          exact ⟨w, by show st2.walker = some w; rw [hw2]; exact hw, rest⟩
+        · have := (ms.ctrl.curIn seg hs).1; cases this
+      · show (({ st2 with bag := st2.bag ++ oc.toList } : State).inFlight.filter Cmd.isDlCur).length ≤ 1
+        rw [hflight, List.filter_append, List.length_append]
+        have h0 : ((optAtoms oc).filter Cmd.isDlCur).length = 0 :=
+          filter_dlCur_nil (fun seg hs => by have := (ms.ctrl.curIn seg hs).1; cases this)
+        have h1 := h.dlOne
+        have := hcount.1
+        omega
+      · intro hs
+        rcases (hmemNew _).1 hs with hs | hs
+        · obtain ⟨w, hw, rest⟩ := h.wc (hsub _ hs)
+          exact ⟨w, by show st2.walker = some w; rw [hw2]; exact hw, rest⟩
+        · have := (ms.ctrl.wcIn hs).1; cases this
+      · intro _ w hw
+        have hw' : st.walker = some w := by rw [← hw2]; exact hw
+        rw [hw0] at hw'; injection hw' with hw'; subst hw'; exact hdone0
+      · intro w hw i h1 h2
+        obtain ⟨r, hr, hf⟩ := h.outs w (by rw [← hw2]; exact hw) i h1 h2
+        exact ⟨r, hr, hfiles _ _ hf⟩
+    | dl =>
+      have ho2 : st2.outDone = st.outDone := by rw [hout2]; simp
+      have hw2 : st2.walker = st.walker.map fun w => if w.working then w else { w with working := true } := by
+        rw [ms.evo.walker, ms.walker1]
+      cases hwk : st.walker with
+      | none =>
+        rw [hwk] at hw2
+        simp only [Option.map_none] at hw2
+        refine ⟨?_, ?_, ?_, ?_, ?_, ?_, ?_, ?_⟩
+        · intro _; show st2.outDone = true; rw [ho2]; exact h.noWalker hwk
+        · intro w hw; rw [hw2] at hw; cases hw
+        · intro w hw; rw [hw2] at hw; cases hw
+        rotate_left 3
+        · intro _ w hw; rw [hw2] at hw; cases hw
+        · intro w hw; rw [hw2] at hw; cases hw
+        · intro seg hs
+          rcases (hmemNew _).1 hs with hs | hs
+          · obtain ⟨w, hw, _⟩ := h.dlCur seg (hsub _ hs); rw [hwk] at hw; cases hw
+          · obtain ⟨_, w, hw, _⟩ := ms.ctrl.curIn seg hs; rw [ms.walker1, hwk] at hw; cases hw
+        · show (({ st2 with bag := st2.bag ++ oc.toList } : State).inFlight.filter Cmd.isDlCur).length ≤ 1
+          rw [hflight, List.filter_append, List.length_append]
+          have h0 : ((optAtoms oc).filter Cmd.isDlCur).length = 0 :=
+            filter_dlCur_nil (fun seg hs => by
+              obtain ⟨_, w, hw, _⟩ := ms.ctrl.curIn seg hs; rw [ms.walker1, hwk] at hw; cases hw)
+          have h1 := h.dlOne
+          have := hcount.1
+          omega
+        · intro hs
+          rcases (hmemNew _).1 hs with hs | hs
+          · obtain ⟨w, hw, _⟩ := h.wc (hsub _ hs); rw [hwk] at hw; cases hw
+          · obtain ⟨_, w, hw, _⟩ := ms.ctrl.wcIn hs; rw [ms.walker1, hwk] at hw; cases hw
+      | some w0 =>
+        rw [hwk] at hw2
+        simp only [Option.map_some] at hw2
+        cases hworking : w0.working with
+        | true =>
+          -- the message is dropped
+          have hw2' : st2.walker = some w0 := by rw [hw2, hworking]; rfl
+          have noL : ∀ seg, Cmd.downloadCurrent seg ∉ optAtoms oc := by
+            intro seg hs
+            obtain ⟨_, w, hw, hnw, _⟩ := ms.ctrl.curIn seg hs
+            rw [ms.walker1, hwk] at hw; injection hw with hw; subst hw
+            rw [hworking] at hnw; cases hnw
+          have noK : Cmd.walkerCompleted ∉ optAtoms oc := by
+            intro hs
+            obtain ⟨_, w, hw, hnw, _⟩ := ms.ctrl.wcIn hs
+            rw [ms.walker1, hwk] at hw; injection hw with hw; subst hw
+            rw [hworking] at hnw; cases hnw
+          refine ⟨(fun hn => by rw [hw2'] at hn; cases hn), ?_, ?_, ?_, ?_, ?_, ?_, ?_⟩
+          · intro w hw ho _
+            rw [hw2'] at hw; injection hw with hw; subst hw
+            rcases h.walkA w0 hwk (by rw [← ho2]; exact ho) hworking with ⟨seg, hs⟩ | hs
+            · exact Or.inl ⟨seg, (hmemNew _).2 (Or.inl (hneq _ hs (by simp)))⟩
+            · exact Or.inr ((hmemNew _).2 (Or.inl (hneq _ hs (by simp))))
+          · intro w hw _ hnw
+            rw [hw2'] at hw; injection hw with hw; subst hw
+            rw [hworking] at hnw; cases hnw
+          · intro seg hs
+            rcases (hmemNew _).1 hs with hs | hs
+            · obtain ⟨w, hw, rest⟩ := h.dlCur seg (hsub _ hs)
+              rw [hwk] at hw; injection hw with hw; subst hw
+              exact ⟨w0, hw2', rest⟩
+            · exact absurd hs (noL seg)
+          · show (({ st2 with bag := st2.bag ++ oc.toList } : State).inFlight.filter Cmd.isDlCur).length ≤ 1
+            rw [hflight, List.filter_append, List.length_append]
+            have h0 : ((optAtoms oc).filter Cmd.isDlCur).length = 0 := filter_dlCur_nil noL
+            have h1 := h.dlOne
+            have := hcount.1
+            omega
+          · intro hs
+            rcases (hmemNew _).1 hs with hs | hs
+            · obtain ⟨w, hw, rest⟩ := h.wc (hsub _ hs)
+              rw [hwk] at hw; injection hw with hw; subst hw
+              exact ⟨w0, hw2', rest⟩
+            · exact absurd hs noK
+          · intro ho w hw
+            rw [hw2'] at hw; injection hw with hw; subst hw
+            exact h.doneW (by rw [← ho2]; exact ho) w0 hwk
+          · intro w hw i h1 h2
+            rw [hw2'] at hw; injection hw with hw; subst hw
+            obtain ⟨r, hr, hf⟩ := h.outs w0 hwk i h1 h2
+            exact ⟨r, hr, hfiles _ _ hf⟩
+        | false =>
+          -- the walker starts to work: a download or the completion signal is issued
+          have hw2' : st2.walker = some { w0 with working := true } := by rw [hw2, hworking]; rfl
+          have hcur := ms.ctrl.curOut rfl w0 (by rw [ms.walker1]; exact hwk) hworking
+          have noLA : ∀ seg, Cmd.downloadCurrent seg ∉ atomsList (st.bag.eraseIdx idx) := by
+            intro seg hs
+            obtain ⟨w, hw, hwk', _⟩ := h.dlCur seg (hsub _ hs)
+            rw [hwk] at hw; injection hw with hw; subst hw
+            rw [hworking] at hwk'; cases hwk'
+          have noKA : Cmd.walkerCompleted ∉ atomsList (st.bag.eraseIdx idx) := by
+            intro hs
+            obtain ⟨w, hw, hwk', _⟩ := h.wc (hsub _ hs)
+            rw [hwk] at hw; injection hw with hw; subst hw
+            rw [hworking] at hwk'; cases hwk'
+          refine ⟨(fun hn => by rw [hw2'] at hn; cases hn), ?_, ?_, ?_, ?_, ?_, ?_, ?_⟩
+          · intro w hw _ _
+            cases hd : w0.isDone with
+            | true => exact Or.inr ((hmemNew _).2 (Or.inr (hcur.1 hd)))
+            | false => exact Or.inl ⟨w0.cur, (hmemNew _).2 (Or.inr (hcur.2 hd))⟩
+          · intro w hw _ hnw
+            rw [hw2'] at hw; injection hw with hw; subst hw
+            cases hnw
+          · intro seg hs
+            rcases (hmemNew _).1 hs with hs | hs
+            · exact absurd hs (noLA seg)
+            · obtain ⟨_, w, hw, _, hnd, hseg⟩ := ms.ctrl.curIn seg hs
+              rw [ms.walker1, hwk] at hw; injection hw with hw; subst hw
+              exact ⟨_, hw2', rfl, hseg, hnd⟩
+          · show (({ st2 with bag := st2.bag ++ oc.toList } : State).inFlight.filter Cmd.isDlCur).length ≤ 1
+            rw [hflight, List.filter_append, List.length_append]
+            have h0 : ((atomsList (st.bag.eraseIdx idx)).filter Cmd.isDlCur).length = 0 := filter_dlCur_nil noLA
+            have h1 := ms.ctrl.curCount
+            omega
+          · intro hs
+            rcases (hmemNew _).1 hs with hs | hs
+            · exact absurd hs noKA
+            · obtain ⟨_, w, hw, _, hd⟩ := ms.ctrl.wcIn hs
+              rw [ms.walker1, hwk] at hw; injection hw with hw; subst hw
+              exact ⟨_, hw2', rfl, hd⟩
+          · intro ho w hw
+            rw [hw2'] at hw; injection hw with hw; subst hw
+            exact h.doneW (by rw [← ho2]; exact ho) w0 hwk
+          · intro w hw i h1 h2
+            rw [hw2'] at hw; injection hw with hw; subst hw
+            obtain ⟨r, hr, hf⟩ := h.outs w0 hwk i h1 h2
+            exact ⟨r, hr, hfiles _ _ hf⟩
+    | absent seg =>
+      have ho2 : st2.outDone = st.outDone := by rw [hout2]; simp
+      obtain ⟨w0, hwk, hworking, hseg, hnd⟩ := h.dlCur seg hcin
+      have hw2' : st2.walker = some { w0 with working := false } := by rw [ms.evo.walker, ms.walker1, hwk]; rfl
+      -- this was the only download in flight
+      have noLA : ∀ s', Cmd.downloadCurrent s' ∉ atomsList (st.bag.eraseIdx idx) := by
+        apply no_dlCur_of_filter_nil
+        have := hcount.2 rfl
+        have h1 := h.dlOne
+        omega
+      have noKA : Cmd.walkerCompleted ∉ atomsList (st.bag.eraseIdx idx) := by
+        intro hs
+        obtain ⟨w, hw, _, hd⟩ := h.wc (hsub _ hs)
+        rw [hwk] at hw; injection hw with hw; subst hw
+        rw [hnd] at hd; cases hd
+      have noL : ∀ s', Cmd.downloadCurrent s' ∉ optAtoms oc := fun s' hs => by have := (ms.ctrl.curIn s' hs).1; cases this
+      have noK : Cmd.walkerCompleted ∉ optAtoms oc := fun hs => by have := (ms.ctrl.wcIn hs).1; cases this
+      refine ⟨(fun hn => by rw [hw2'] at hn; cases hn), ?_, ?_, ?_, ?_, ?_, ?_, ?_⟩
+      · intro w hw _ hwk'
+        rw [hw2'] at hw; injection hw with hw; subst hw
+        cases hwk'
+      · intro w _ _ _
+        exact (hmemNew _).2 (Or.inr (ms.ctrl.dlOut (Or.inl rfl)))
+      · intro s' hs
+        rcases (hmemNew _).1 hs with hs | hs
+        · exact absurd hs (noLA s')
+        · exact absurd hs (noL s')
+      · show (({ st2 with bag := st2.bag ++ oc.toList } : State).inFlight.filter Cmd.isDlCur).length ≤ 1
+        rw [hflight, List.filter_append, List.length_append, filter_dlCur_nil noLA, filter_dlCur_nil noL]
+        omega
+      · intro hs
+        rcases (hmemNew _).1 hs with hs | hs
+        · exact absurd hs noKA
+        · exact absurd hs noK
+      · intro ho w hw
+        exfalso
+        have := h.doneW (by rw [← ho2]; exact ho) w0 hwk
+        rw [hnd] at this; cases this
+      · intro w hw i h1 h2
+        rw [hw2'] at hw; injection hw with hw; subst hw
+        obtain ⟨r, hr, hf⟩ := h.outs w0 hwk i h1 h2
+        exact ⟨r, hr, hfiles _ _ hf⟩
+    | present seg =>
+      have ho2 : st2.outDone = st.outDone := by rw [hout2]; simp
+      obtain ⟨w0, hwk, hworking, hseg, hnd⟩ := h.dlCur seg hcin
+      have hw2' : st2.walker = some { w0 with cur := w0.cur + 1, working := false } := by
+        rw [ms.evo.walker, ms.walker1, hwk]; rfl
+      have noLA : ∀ s', Cmd.downloadCurrent s' ∉ atomsList (st.bag.eraseIdx idx) := by
+        apply no_dlCur_of_filter_nil
+        have := hcount.2 rfl
+        have h1 := h.dlOne
+        omega
+      have noKA : Cmd.walkerCompleted ∉ atomsList (st.bag.eraseIdx idx) := by
+        intro hs
+        obtain ⟨w, hw, _, hd⟩ := h.wc (hsub _ hs)
+        rw [hwk] at hw; injection hw with hw; subst hw
+        rw [hnd] at hd; cases hd
+      have noL : ∀ s', Cmd.downloadCurrent s' ∉ optAtoms oc := fun s' hs => by have := (ms.ctrl.curIn s' hs).1; cases this
+      have noK : Cmd.walkerCompleted ∉ optAtoms oc := fun hs => by have := (ms.ctrl.wcIn hs).1; cases this
+      -- the file that was downloaded exists
+      have hfile := exec_present { st with bag := st.bag.eraseIdx idx } seg (by rw [hex])
+      refine ⟨(fun hn => by rw [hw2'] at hn; cases hn), ?_, ?_, ?_, ?_, ?_, ?_, ?_⟩
+      · intro w hw _ hwk'
+        rw [hw2'] at hw; injection hw with hw; subst hw
+        cases hwk'
+      · intro w _ _ _
+        exact (hmemNew _).2 (Or.inr (ms.ctrl.dlOut (Or.inr rfl)))
+      · intro s' hs
+        rcases (hmemNew _).1 hs with hs | hs
+        · exact absurd hs (noLA s')
+        · exact absurd hs (noL s')
+      · show (({ st2 with bag := st2.bag ++ oc.toList } : State).inFlight.filter Cmd.isDlCur).length ≤ 1
+        rw [hflight, List.filter_append, List.length_append, filter_dlCur_nil noLA, filter_dlCur_nil noL]
+        omega
+      · intro hs
+        rcases (hmemNew _).1 hs with hs | hs
+        · exact absurd hs noKA
+        · exact absurd hs noK
+      · intro ho w hw
+        exfalso
+        have := h.doneW (by rw [← ho2]; exact ho) w0 hwk
+        rw [hnd] at this; cases this
+      · intro w hw i h1 h2
+        rw [hw2'] at hw; injection hw with hw; subst hw
+        simp only at h1 h2 ⊢
+        by_cases hi : i < w0.cur
+        · obtain ⟨r, hr, hf⟩ := h.outs w0 hwk i h1 hi
+          exact ⟨r, hr, hfiles _ _ hf⟩
+        · have hic : i = w0.cur := by omega
+          obtain ⟨w', r, hw', hr, hf⟩ := hfile
+          have hw'' : st.walker = some w' := hw'
+          rw [hwk] at hw''; injection hw'' with hw''; subst hw''
+          rw [hic, ← hseg]
+          exact ⟨r, hr, hfiles _ _ hf⟩
+
+theorem init_liveW_aux (c : Cfg) (fix : Patch) (files : Files) (s s1 : Stages) (tm : List (Option Cmd))
+    (walker : Option Walker) (hwshape : ∀ w, walker = some w → w.working = false ∧ w.cur = w.seg.firstIndex)
+    (hw : s.WF) (htm : tryMergeList (storeStagePositions s.stages 0) s = .ok (s1, tm)) :
+    LiveW { cfg := c, fix := fix, stages := s1, pool := Pool.new c.workers, walker := walker,
+            outDone := walker.isNone, storesDone := false,
+            bag := (mkBatch [if walker.isSome = true then some Cmd.downloadSegment else none, some Cmd.scheduleNextJob,
+                     if s.allStoresCompleted = true then some Cmd.allStoresCompleted else none, mkBatch tm]).toList,
+            files := files, ended := none } := by
+  obtain ⟨t, _, _, hat⟩ := tryMergeList_spec _ s s1 tm hw htm
+  have hctrl := tryMergeList_ctrl _ s s1 tm hw htm
+  have htm_atoms : atomsList (tm.filterMap id) = tm.filterMap id := atomsList_of_atomic _ (fun c hc => (hat c hc).1)
+  have key : ∀ (dl all : Option Cmd), (∀ x ∈ dl.toList, x = Cmd.downloadSegment) →
+      (∀ x ∈ all.toList, x = Cmd.allStoresCompleted) →
+      (∀ x ∈ optAtoms (mkBatch [dl, some Cmd.scheduleNextJob, all, mkBatch tm]),
+        (∀ seg, x ≠ Cmd.downloadCurrent seg) ∧ x ≠ Cmd.walkerCompleted) ∧
+      (dl.isSome = true → Cmd.downloadSegment ∈ optAtoms (mkBatch [dl, some Cmd.scheduleNextJob, all, mkBatch tm])) := by
+    intro dl all hdl hall
+    rw [optAtoms_mkBatch, init_atoms_explicit dl all tm hdl hall htm_atoms]
+    constructor
+    · intro x hx
+      simp only [List.mem_append, List.mem_singleton] at hx
+      rcases hx with ((hx | hx) | hx) | hx
+      · rw [hdl x hx]; exact ⟨by simp, by simp⟩
+      · subst hx; exact ⟨by simp, by simp⟩
+      · rw [hall x hx]; exact ⟨by simp, by simp⟩
+      · rcases (hctrl x hx).1 with e1 | ⟨u, e1⟩ | ⟨u, e1⟩ <;> subst e1 <;> exact ⟨by simp, by simp⟩
+    · intro hsome
+      cases dl with
+      | none => simp at hsome
+      | some d => have := hdl d (by simp); subst this; simp
+  obtain ⟨hno, hdl⟩ := key (if walker.isSome = true then some Cmd.downloadSegment else none)
+    (if s.allStoresCompleted = true then some Cmd.allStoresCompleted else none) (ite_some_toList _ _) (ite_some_toList _ _)
+  refine ⟨?_, ?_, ?_, ?_, ?_, ?_, ?_, ?_⟩
+  · intro hn
+    show walker.isNone = true
+    have : walker = none := hn
+    rw [this]; rfl
+  · intro w hw _ hwk
+    have : walker = some w := hw
+    rw [(hwshape w this).1] at hwk; cases hwk
+  · intro w hw _ _
+    have hws : walker = some w := hw
+    apply hdl
+    rw [hws]; rfl
+  · intro seg hs; exact absurd rfl ((hno _ hs).1 seg)
+  · have : ∀ seg, Cmd.downloadCurrent seg ∉ atomsList (Option.toList (mkBatch
+        [if walker.isSome = true then some Cmd.downloadSegment else none, some Cmd.scheduleNextJob,
+         if s.allStoresCompleted = true then some Cmd.allStoresCompleted else none, mkBatch tm])) :=
+      fun seg hs => absurd rfl ((hno _ hs).1 seg)
+    show ((atomsList _).filter Cmd.isDlCur).length ≤ 1
+    rw [filter_dlCur_nil this]; omega
+  · intro hs; exact absurd rfl (hno _ hs).2
+  · intro ho w hw
+    have hws : walker = some w := hw
+    have : walker.isNone = true := ho
+    rw [hws] at this; cases this
+  · intro w hw i h1 h2
+    have hws : walker = some w := hw
+    rw [(hwshape w hws).2] at h2; omega
+
+theorem init_liveW {c : Cfg} {fix : Patch} {files : Files} {st : State} (hc : c.OK)
+    (h : init c fix files = .ok st) : LiveW st := by
+  unfold init at h
+  split at h
+  · cases h
+  · rename_i s hs
+    obtain ⟨hw, _, _, _⟩ := initStages_base hc hs
+    simp only at h
+    split at h
+    · cases h
+    · rename_i s1 tm htm
+      injection h with h; subst h
+      refine init_liveW_aux c fix files s s1 tm _ ?_ hw htm
+      intro w hw
+      split at hw
+      · split at hw
+        · injection hw with hw; subst hw; exact ⟨rfl, rfl⟩
+        · cases hw
+      · cases hw
+
+theorem reachable_liveW {c : Cfg} {fix : Patch} {files : Files} {st : State} (hc : c.OK) (hf : fix.shadow = true)
+    (h : Reachable c fix files st) : LiveW st := by
+  induction h with
+  | init h0 => exact init_liveW hc h0
+  | @step st0 idx e hr ih => exact step_liveW st0 idx e (reachable_good hc hf hr) ih
+
 /-! ### witnesses (configurations and schedules) used by the `example`s of `Props/C05.lean`; every one was found
 by the model's explorer (`Driver/C05.lean`) and replayed on the real code by `harness/cmd/vh_c05` -/
 namespace Witness
@@ -2116,6 +3985,22 @@ def schedPanic : List (Nat × Bool) := [(0,false),(1,false),(0,false),(3,false),
 /-- F21 (fixed at HEAD by commit 38ce9883): the only store starts at block 30, after the hand-off 20; mapper from 0 -/
 def cfgShift : Cfg := mkCfg 10 none (some ⟨0, 20⟩) (some ⟨0, 20⟩) [⟨.store, [30]⟩, ⟨.map, [0]⟩] 0 0 1
 def schedShift : List (Nat × Bool) := [(0,false),(0,false),(2,false)]
+
+/-- a decidable check of `Cfg.OK` -/
+def check (c : Cfg) : Bool :=
+  decide (0 < c.interval) &&
+  (match c.buildStores with | none => true | some r => decide (0 < r.stop) && r.stop % c.interval == 0) &&
+  (match c.writeExecOut with | none => true | some r => decide (0 < r.stop) && r.stop % c.interval == 0) &&
+  (List.range (c.graph.length - 1)).all fun i => (c.graph.getD i ⟨.map, []⟩).kind == .store
+
+theorem ok_of_check (c : Cfg) (h : check c = true) : c.OK := by
+  unfold check at h
+  simp only [Bool.and_eq_true, decide_eq_true_eq, List.all_eq_true, List.mem_range, beq_iff_eq] at h
+  obtain ⟨⟨⟨h1, h2⟩, h3⟩, h4⟩ := h
+  refine ⟨h1, ?_, ?_, ?_⟩
+  · intro r hr; rw [hr] at h2; simpa using h2
+  · intro r hr; rw [hr] at h3; simpa using h3
+  · intro i hi; exact h4 i (by omega)
 
 /-- the state reached from the initial state by a schedule (`none` if the initial state panics) -/
 def after (c : Cfg) (fix : Patch) (files : Files) (sched : List (Nat × Bool)) : Option State :=
